@@ -1,6 +1,2880 @@
-//! C19 — monitor not built yet.
-use crate::core::Ctx;
+//! C19 — work and memory are bounded by the input actually supplied.
+//!
+//! Oracles (all at the public API boundary, observed with the counting global allocator and the
+//! per-thread CPU clock):
+//!  W1  declared-vs-present: every length-like field set to a huge value over a tiny body; peak
+//!      allocation must stay below C0 + K*|input| (+ the documented AEAD chunk buffer / bzip2 block
+//!      state where such a container is opened) and no single allocation may follow the declared
+//!      length.
+//!  W2  repeated structures: CPU time at n,2n,4n,8n, fitted exponent < 1.7 (confirmed twice, and only
+//!      decisive when the largest run took >= 0.2 s); peak memory linear in the input.
+//!  W3  streaming: peak(64 MiB) <= peak(16 MiB) + 1 MiB for builder and reader, every container kind;
+//!      SEIPDv1 CheckFirst refuses messages over its limit and stays below 2*L + C0.
+//!  W4  KDF ceilings: every Argon2 parameter set over the documented ceiling (t>32, p>32, m>2^21 KiB)
+//!      or malformed is refused quickly without allocating; iterated S2K hashes the RFC octet count
+//!      for all 256 coded counts in time linear in the count.
+//!
+//! Everything the monitor needs lives in this file.
+
+use std::io::{BufReader, Read, Write};
+
+use pgp::armor::Dearmor;
+use pgp::composed::{
+    CleartextSignedMessage, DecryptionOptions, Deserializable, DetachedSignature, Edata, Message,
+    MessageBuilder, PlainSessionKey, SignedPublicKey, SignedSecretKey, TheRing,
+};
+use pgp::crypto::aead::{AeadAlgorithm, ChunkSize};
+use pgp::crypto::hash::HashAlgorithm;
+use pgp::crypto::sym::SymmetricKeyAlgorithm;
+use pgp::packet::{Packet, PacketParser, PacketTrait, ProtectedDataConfig, SymEncryptedProtectedDataConfig};
+use pgp::ser::Serialize;
+use pgp::types::{CompressionAlgorithm, Password, Seipdv1ReadMode, StringToKey};
+use rand::{Rng, SeedableRng};
+use rand_chacha::ChaCha8Rng;
+use serde_json::json;
+
+use crate::core::{describe_case, hexs, thread_cpu_s, Ctx};
+use crate::rfc;
+use crate::rfc::frame::{frame, LenForm};
+use crate::shim::{measure_alloc, AllocStats};
+use crate::zoo;
+
+// ------------------------------------------------------------------------------------------
+// constants of the oracles (calibrated on the unchanged tree; see the notes in `run`)
+
+/// parsers: peak <= W1_C0 + W1_K * |input|
+const W1_C0: u64 = 256 * 1024;
+const W1_K: u64 = 16;
+/// bzip2 decoder state for the largest block size (900k): a bounded format parameter
+const BZIP2_ALLOW: u64 = 8 * 1024 * 1024;
+const KIB: u64 = 1024;
+const MIB: u64 = 1024 * 1024;
+
+fn dbg_on() -> bool {
+    std::env::var_os("C19_DEBUG").is_some()
+}
+
+macro_rules! dbg_line {
+    ($($a:tt)*) => { if dbg_on() { eprintln!($($a)*); } };
+}
+
+// ------------------------------------------------------------------------------------------
+// small wire helpers (written from RFC 9580 section 4.2; independent of `pgp`)
+
+fn be16(v: u16) -> [u8; 2] {
+    v.to_be_bytes()
+}
+fn be32(v: u32) -> [u8; 4] {
+    v.to_be_bytes()
+}
+
+/// new-format header with a 5-octet length that declares `declared` octets
+fn hdr_new5(tag: u8, declared: u32) -> Vec<u8> {
+    let mut o = vec![0xC0 | tag, 0xFF];
+    o.extend_from_slice(&be32(declared));
+    o
+}
+/// old-format header, 4-octet length
+fn hdr_old4(tag: u8, declared: u32) -> Vec<u8> {
+    let mut o = vec![0x80 | (tag << 2) | 2];
+    o.extend_from_slice(&be32(declared));
+    o
+}
+fn hdr_old2(tag: u8, declared: u16) -> Vec<u8> {
+    let mut o = vec![0x80 | (tag << 2) | 1];
+    o.extend_from_slice(&be16(declared));
+    o
+}
+/// packet with the true length, minimal new-format encoding
+fn pkt(tag: u8, body: &[u8]) -> Vec<u8> {
+    frame(tag, body, &LenForm::NewMin).expect("frame")
+}
+fn mpi_declared(bits: u16, real: &[u8]) -> Vec<u8> {
+    let mut o = be16(bits).to_vec();
+    o.extend_from_slice(real);
+    o
+}
+/// literal data packet (binary, empty name, time 0)
+fn literal(body: &[u8]) -> Vec<u8> {
+    let mut b = vec![b'b', 0, 0, 0, 0, 0];
+    b.extend_from_slice(body);
+    pkt(11, &b)
+}
+
+/// Tolerant packet walker used only to find documented buffer parameters in an input that the
+/// harness itself crafted: returns the largest AEAD chunk buffer (2*(chunk+32)) announced by a SEIPDv2
+/// (tag 18, version 2) or GnuPG-AEAD (tag 20) packet, and whether a bzip2 container is present.
+fn documented_buffers(mut d: &[u8]) -> (u64, bool) {
+    let mut aead = 0u64;
+    let mut bz = false;
+    let mut guard = 0;
+    while d.len() >= 2 && guard < 4096 {
+        guard += 1;
+        let h = d[0];
+        if h & 0x80 == 0 {
+            break;
+        }
+        let (tag, hl, len): (u8, usize, Option<usize>) = if h & 0x40 != 0 {
+            let tag = h & 0x3F;
+            match d[1] {
+                0..=191 => (tag, 2, Some(d[1] as usize)),
+                192..=223 => {
+                    if d.len() < 3 {
+                        break;
+                    }
+                    (tag, 3, Some(((d[1] as usize - 192) << 8) + d[2] as usize + 192))
+                }
+                255 => {
+                    if d.len() < 6 {
+                        break;
+                    }
+                    (tag, 6, Some(u32::from_be_bytes([d[2], d[3], d[4], d[5]]) as usize))
+                }
+                _ => (tag, 2, None), // partial: treat the rest as body
+            }
+        } else {
+            let tag = (h >> 2) & 0x0F;
+            match h & 3 {
+                0 => (tag, 2, Some(d[1] as usize)),
+                1 => {
+                    if d.len() < 3 {
+                        break;
+                    }
+                    (tag, 3, Some(u16::from_be_bytes([d[1], d[2]]) as usize))
+                }
+                2 => {
+                    if d.len() < 5 {
+                        break;
+                    }
+                    (tag, 5, Some(u32::from_be_bytes([d[1], d[2], d[3], d[4]]) as usize))
+                }
+                _ => (tag, 1, None),
+            }
+        };
+        let body_all = &d[hl.min(d.len())..];
+        let blen = len.unwrap_or(body_all.len()).min(body_all.len());
+        let body = &body_all[..blen];
+        match tag {
+            18 if body.len() >= 4 && body[0] == 2 => {
+                if body[3] <= 16 {
+                    aead = aead.max(2 * ((1u64 << (body[3] as u32 + 6)) + 32));
+                }
+            }
+            20 if body.len() >= 4 => {
+                if body[3] <= 16 {
+                    aead = aead.max(2 * ((1u64 << (body[3] as u32 + 6)) + 32));
+                }
+            }
+            8 if !body.is_empty() && body[0] == 3 => bz = true,
+            8 if !body.is_empty() && body[0] == 0 => {
+                // stored container: look inside
+                let (a, b) = documented_buffers(&body[1..]);
+                aead = aead.max(a);
+                bz |= b;
+            }
+            _ => {}
+        }
+        d = &body_all[blen..];
+    }
+    (aead, bz)
+}
+
+// ------------------------------------------------------------------------------------------
+// entry points
+
+#[derive(Clone, Copy, Debug, PartialEq, Eq, Hash)]
+enum Entry {
+    Packets,
+    Message,
+    PublicKey,
+    SecretKey,
+    DetachedSig,
+    Dearmor,
+    ArmoredMessage,
+    ArmoredKey,
+    Cleartext,
+}
+
+impl Entry {
+    const BINARY: [Entry; 5] =
+        [Entry::Packets, Entry::Message, Entry::PublicKey, Entry::SecretKey, Entry::DetachedSig];
+    const ARMORED: [Entry; 4] =
+        [Entry::Dearmor, Entry::ArmoredMessage, Entry::ArmoredKey, Entry::Cleartext];
+    fn name(&self) -> &'static str {
+        match self {
+            Entry::Packets => "PacketParser",
+            Entry::Message => "Message::from_bytes",
+            Entry::PublicKey => "SignedPublicKey::from_bytes",
+            Entry::SecretKey => "SignedSecretKey::from_bytes",
+            Entry::DetachedSig => "DetachedSignature::from_bytes",
+            Entry::Dearmor => "Dearmor",
+            Entry::ArmoredMessage => "Message::from_armor",
+            Entry::ArmoredKey => "SignedPublicKey::from_armor_single",
+            Entry::Cleartext => "CleartextSignedMessage::from_armor",
+        }
+    }
+}
+
+/// fixed secrets the crafted inputs may be opened with
+fn zero_key_v4() -> PlainSessionKey {
+    PlainSessionKey::V3_4 { sym_alg: SymmetricKeyAlgorithm::AES128, key: vec![0u8; 16].into() }
+}
+fn zero_key_v6() -> PlainSessionKey {
+    PlainSessionKey::V6 { key: vec![0u8; 16].into() }
+}
+
+/// Drives a parsed message the way a defensive application would: open containers (up to `depth`
+/// levels), stream the content in 64 KiB reads, never collect it. `scratch` is allocated by the
+/// caller outside the measured region. Returns number of bytes released.
+fn drive_message<'a>(mut m: Message<'a>, scratch: &mut [u8], depth: usize, read_cap: u64) -> u64 {
+    let pw = Password::from("pw");
+    for _ in 0..depth {
+        if m.is_compressed() {
+            match m.decompress() {
+                Ok(n) => m = n,
+                Err(_) => return 0,
+            }
+        } else if m.is_encrypted() {
+            // a bare container is opened with the fixed all-zero session key of the matching
+            // generation; with ESK packets in front the password route is taken (S2K + unwrap)
+            let (has_esk, key) = match &m {
+                Message::Encrypted { esk, edata, .. } => {
+                    let key = match edata {
+                        Edata::SymEncryptedProtectedData { reader } => match reader.config() {
+                            ProtectedDataConfig::Seipd(SymEncryptedProtectedDataConfig::V2 { .. }) => zero_key_v6(),
+                            _ => zero_key_v4(),
+                        },
+                        Edata::GnupgAeadData { .. } => PlainSessionKey::V5 { key: vec![0u8; 16].into() },
+                        Edata::SymEncryptedData { .. } => zero_key_v4(),
+                    };
+                    (!esk.is_empty(), key)
+                }
+                _ => unreachable!(),
+            };
+            let ring = TheRing {
+                message_password: if has_esk { vec![&pw] } else { vec![] },
+                session_keys: if has_esk { vec![] } else { vec![key] },
+                decrypt_options: DecryptionOptions::new().enable_legacy().enable_gnupg_aead(),
+                ..Default::default()
+            };
+            match m.decrypt_the_ring(ring, true) {
+                Ok((n, _)) => m = n,
+                Err(_) => return 0,
+            }
+        } else {
+            break;
+        }
+    }
+    let mut total = 0u64;
+    loop {
+        match m.read(scratch) {
+            Ok(0) => break,
+            Ok(n) => {
+                total += n as u64;
+                if total >= read_cap {
+                    break;
+                }
+            }
+            Err(_) => break,
+        }
+    }
+    total
+}
+
+/// Runs one entry point over `data` (binary entries) or `armored` (armored entries).
+/// Everything allocated here is attributed to the library (the harness allocates nothing but the
+/// results it drops immediately).
+fn run_entry(e: Entry, data: &[u8], scratch: &mut [u8]) -> bool {
+    match e {
+        Entry::Packets => {
+            let mut ok = false;
+            for (i, p) in PacketParser::new(data).enumerate() {
+                ok |= p.is_ok();
+                if i >= 4096 {
+                    break;
+                }
+            }
+            ok
+        }
+        Entry::Message => match Message::from_bytes(data) {
+            Ok(m) => {
+                drive_message(m, scratch, 4, 4 * MIB);
+                true
+            }
+            Err(_) => false,
+        },
+        Entry::PublicKey => SignedPublicKey::from_bytes(data).is_ok(),
+        Entry::SecretKey => SignedSecretKey::from_bytes(data).is_ok(),
+        Entry::DetachedSig => DetachedSignature::from_bytes(data).is_ok(),
+        Entry::Dearmor => {
+            let mut d = Dearmor::new(BufReader::new(data));
+            let mut n = 0u64;
+            loop {
+                match d.read(scratch) {
+                    Ok(0) => break,
+                    Ok(k) => n += k as u64,
+                    Err(_) => break,
+                }
+            }
+            n > 0
+        }
+        Entry::ArmoredMessage => match Message::from_armor(BufReader::new(data)) {
+            Ok((m, _)) => {
+                drive_message(m, scratch, 4, 4 * MIB);
+                true
+            }
+            Err(_) => false,
+        },
+        Entry::ArmoredKey => SignedPublicKey::from_armor_single(data).is_ok(),
+        Entry::Cleartext => CleartextSignedMessage::from_armor(data).is_ok(),
+    }
+}
+
+struct Obs {
+    st: AllocStats,
+    cpu: f64,
+    ok: bool,
+    panicked: Option<String>,
+}
+
+fn observe(e: Entry, data: &[u8], scratch: &mut [u8]) -> Obs {
+    let t0 = thread_cpu_s();
+    let (r, st) = measure_alloc(|| crate::core::guard(|| run_entry(e, data, scratch)));
+    let cpu = thread_cpu_s() - t0;
+    match r {
+        Ok(ok) => Obs { st, cpu, ok, panicked: None },
+        Err(p) => Obs { st, cpu, ok: false, panicked: Some(p.short_loc()) },
+    }
+}
+
+// ------------------------------------------------------------------------------------------
+// W1: declared-vs-present
+
+struct W1Case {
+    ptype: &'static str,
+    field: &'static str,
+    declared: u64,
+    /// real bytes following the length field
+    tail: usize,
+    data: Vec<u8>,
+}
+
+const D4: [u32; 4] = [1 << 16, 1 << 24, 1 << 31, u32::MAX];
+const TAILS: [usize; 5] = [0, 1, 7, 33, 64];
+
+/// seed-dependent salt of the filler octets and of the extra tail length (set once in `run`)
+static FILL_SALT: std::sync::atomic::AtomicU64 = std::sync::atomic::AtomicU64::new(0);
+
+fn filler(n: usize) -> Vec<u8> {
+    let salt = FILL_SALT.load(std::sync::atomic::Ordering::Relaxed);
+    (0..n).map(|i| ((i as u64).wrapping_mul(37).wrapping_add(1).wrapping_add(salt.wrapping_mul(i as u64 + 7) >> 11)) as u8).collect()
+}
+
+/// the fixed tails plus one seed-dependent tail in 2..64
+fn tails() -> Vec<usize> {
+    let salt = FILL_SALT.load(std::sync::atomic::Ordering::Relaxed);
+    let mut t = TAILS.to_vec();
+    t.push(2 + (salt % 61) as usize);
+    t
+}
+
+/// subpacket length octets in the 1/2/5-octet forms (RFC 9580 5.2.3.7)
+fn subpkt_len(form: u8, len: u32) -> Vec<u8> {
+    match form {
+        1 => vec![len.min(191) as u8],
+        2 => {
+            let v = len.clamp(192, 16319) - 192;
+            vec![(v >> 8) as u8 + 192, v as u8]
+        }
+        _ => {
+            let mut o = vec![255u8];
+            o.extend_from_slice(&be32(len));
+            o
+        }
+    }
+}
+
+/// v4 signature body up to and including the hashed area; caller appends the rest
+fn sig4_prefix(pk_alg: u8, hashed: &[u8], hashed_declared: Option<u16>) -> Vec<u8> {
+    let mut b = vec![4, 0x00, pk_alg, 8];
+    b.extend_from_slice(&be16(hashed_declared.unwrap_or(hashed.len() as u16)));
+    b.extend_from_slice(hashed);
+    b
+}
+fn sig6_prefix(pk_alg: u8, hashed: &[u8], hashed_declared: Option<u32>) -> Vec<u8> {
+    let mut b = vec![6, 0x00, pk_alg, 8];
+    b.extend_from_slice(&be32(hashed_declared.unwrap_or(hashed.len() as u32)));
+    b.extend_from_slice(hashed);
+    b
+}
+fn creation_subpkt() -> Vec<u8> {
+    vec![5, 2, 0x65, 0x53, 0xF1, 0x00]
+}
+
+/// A complete, well-formed v4 EdDSA-legacy signature body (not cryptographically valid)
+fn sig4_complete() -> Vec<u8> {
+    let mut b = sig4_prefix(22, &creation_subpkt(), None);
+    b.extend_from_slice(&be16(0)); // unhashed
+    b.extend_from_slice(&[0xAB, 0xCD]);
+    b.extend(mpi_declared(256, &[0x80; 32]));
+    b.extend(mpi_declared(256, &[0x80; 32]));
+    b
+}
+
+fn v4_pubkey_ed25519_legacy() -> Vec<u8> {
+    let mut b = vec![4, 0x65, 0x53, 0xF1, 0x00, 22];
+    b.push(9);
+    b.extend_from_slice(&[0x2B, 0x06, 0x01, 0x04, 0x01, 0xDA, 0x47, 0x0F, 0x01]);
+    let mut q = vec![0x40];
+    q.extend_from_slice(&[0x11; 32]);
+    b.extend(mpi_declared(263, &q));
+    b
+}
+fn v6_pubkey_ed25519() -> Vec<u8> {
+    let mut b = vec![6, 0x65, 0x53, 0xF1, 0x00, 27];
+    b.extend_from_slice(&be32(32));
+    b.extend_from_slice(&[0x11; 32]);
+    b
+}
+fn v4_pubkey_rsa() -> Vec<u8> {
+    let mut b = vec![4, 0x65, 0x53, 0xF1, 0x00, 1];
+    let mut n = vec![0xC1u8; 256];
+    n[255] |= 1;
+    b.extend(mpi_declared(2048, &n));
+    b.extend(mpi_declared(17, &[1, 0, 1]));
+    b
+}
+
+fn w1_cases() -> Vec<W1Case> {
+    let mut v: Vec<W1Case> = vec![];
+    let mut add = |ptype: &'static str, field: &'static str, declared: u64, tail: usize, data: Vec<u8>| {
+        v.push(W1Case { ptype, field, declared, tail, data });
+    };
+
+    // bodies that are plausible beginnings for each tag (so the declared length is the only lie)
+    let sig_body = sig4_complete();
+    let key4 = v4_pubkey_ed25519_legacy();
+    let key6 = v6_pubkey_ed25519();
+    let lit_body: Vec<u8> = {
+        let mut b = vec![b'b', 0, 0, 0, 0, 0];
+        b.extend(filler(64));
+        b
+    };
+    let ops_body = vec![3u8, 0, 8, 22, 1, 2, 3, 4, 5, 6, 7, 8, 1];
+    let skesk4 = vec![4u8, 7, 0, 8];
+    let pkesk3 = {
+        let mut b = vec![3u8, 1, 2, 3, 4, 5, 6, 7, 8, 1];
+        b.extend(mpi_declared(2048, &[0x55; 256]));
+        b
+    };
+    let seipd1 = {
+        let mut b = vec![1u8];
+        b.extend(filler(64));
+        b
+    };
+    let seipd2 = {
+        let mut b = vec![2u8, 7, 2, 6];
+        b.extend_from_slice(&[7u8; 32]);
+        b.extend(filler(64));
+        b
+    };
+    let gnupg_aead = {
+        let mut b = vec![1u8, 7, 2, 6];
+        b.extend_from_slice(&[7u8; 15]);
+        b.extend(filler(64));
+        b
+    };
+    let uattr = {
+        let mut b = vec![];
+        let mut img = vec![1u8, 0x10, 0x00, 1, 1];
+        img.extend_from_slice(&[0u8; 12]);
+        img.extend(filler(20));
+        b.extend(subpkt_len(1, img.len() as u32));
+        b.extend(img);
+        b
+    };
+    let plausible: Vec<(u8, &'static str, Vec<u8>)> = vec![
+        (1, "pkesk", pkesk3.clone()),
+        (2, "signature", sig_body.clone()),
+        (3, "skesk", skesk4.clone()),
+        (4, "ops", ops_body.clone()),
+        (5, "secret-key", {
+            let mut b = key4.clone();
+            b.push(0);
+            b.extend(mpi_declared(255, &[0x7F; 32]));
+            b.extend_from_slice(&[0x12, 0x34]);
+            b
+        }),
+        (6, "public-key", key4.clone()),
+        (7, "secret-subkey", {
+            let mut b = key6.clone();
+            b.push(0);
+            b.extend_from_slice(&[0x22; 32]);
+            b
+        }),
+        (8, "compressed", {
+            let mut b = vec![0u8];
+            b.extend(literal(b"hello"));
+            b
+        }),
+        (9, "sed", filler(64)),
+        (10, "marker", b"PGP".to_vec()),
+        (11, "literal", lit_body.clone()),
+        (12, "trust", vec![1, 2, 3]),
+        (13, "user-id", b"Alice <alice@example.org>".to_vec()),
+        (14, "public-subkey", key6.clone()),
+        (17, "user-attribute", uattr.clone()),
+        (18, "seipd", seipd1.clone()),
+        (18, "seipd-v2", seipd2.clone()),
+        (19, "mdc", vec![0x11; 20]),
+        (20, "gnupg-aead", gnupg_aead.clone()),
+        (21, "padding", filler(32)),
+        (22, "unassigned-critical", filler(8)),
+        (40, "unassigned-noncritical", filler(8)),
+        (60, "private", filler(8)),
+    ];
+
+    // ---- packet header lengths, every tag
+    for (tag, name, body) in &plausible {
+        for d in D4 {
+            for t in tails() {
+                let t = t.min(body.len());
+                let mut p = hdr_new5(*tag, d);
+                p.extend_from_slice(&body[..t]);
+                add(name, "new-header-len5", d as u64, t, p);
+                if *tag < 16 {
+                    let mut p = hdr_old4(*tag, d);
+                    p.extend_from_slice(&body[..t]);
+                    add(name, "old-header-len4", d as u64, t, p);
+                }
+            }
+        }
+        if *tag < 16 {
+            for t in tails() {
+                let t = t.min(body.len());
+                let mut p = hdr_old2(*tag, 0xFFFF);
+                p.extend_from_slice(&body[..t]);
+                add(name, "old-header-len2", 0xFFFF, t, p);
+            }
+        }
+        // two-octet new length at its maximum
+        for t in tails() {
+            let t = t.min(body.len());
+            let mut p = vec![0xC0 | tag, 223, 255];
+            p.extend_from_slice(&body[..t]);
+            add(name, "new-header-len2", 8383, t, p);
+        }
+        // partial body length 2^30 (legal only for data packets; must be rejected or bounded otherwise)
+        for t in tails() {
+            let t = t.min(body.len());
+            let mut p = vec![0xC0 | tag, 0xFE];
+            p.extend_from_slice(&body[..t]);
+            add(name, "partial-first-chunk", 1 << 30, t, p);
+        }
+        // complete well-formed body followed by a second header that lies
+        let mut p = pkt(*tag, body);
+        p.extend(hdr_new5(*tag, u32::MAX));
+        add(name, "second-header-len5", u32::MAX as u64, 0, p);
+    }
+    // partial chain: legal first chunk of 512 real octets, then a chunk that declares 2^30
+    for (tag, name) in [(11u8, "literal"), (8, "compressed"), (18, "seipd"), (9, "sed"), (20, "gnupg-aead")] {
+        let first: Vec<u8> = match tag {
+            11 => {
+                let mut b = vec![b'b', 0, 0, 0, 0, 0];
+                b.extend(filler(506));
+                b
+            }
+            8 => {
+                let mut b = vec![0u8];
+                b.extend(filler(511));
+                b
+            }
+            18 => {
+                let mut b = vec![1u8];
+                b.extend(filler(511));
+                b
+            }
+            20 => {
+                let mut b = vec![1u8, 7, 2, 6];
+                b.extend(filler(508));
+                b
+            }
+            _ => filler(512),
+        };
+        for t in tails() {
+            let mut p = vec![0xC0 | tag, 224 + 9];
+            p.extend_from_slice(&first);
+            p.push(0xFE);
+            p.extend(filler(t));
+            add(name, "partial-next-chunk", 1 << 30, t, p);
+            let mut p = vec![0xC0 | tag, 224 + 9];
+            p.extend_from_slice(&first);
+            p.push(0xFF);
+            p.extend_from_slice(&be32(u32::MAX));
+            p.extend(filler(t));
+            add(name, "partial-final-len5", u32::MAX as u64, t, p);
+        }
+    }
+
+    // ---- signature packets
+    for t in tails() {
+        // v4 hashed / unhashed area lengths
+        let b = sig4_prefix(22, &filler(t), Some(0xFFFF));
+        add("signature-v4", "hashed-area-len", 0xFFFF, t, pkt(2, &b));
+        let mut b = sig4_prefix(22, &creation_subpkt(), None);
+        b.extend_from_slice(&be16(0xFFFF));
+        b.extend(filler(t));
+        add("signature-v4", "unhashed-area-len", 0xFFFF, t, pkt(2, &b));
+        // v6 areas (4 octet)
+        for d in D4 {
+            let b = sig6_prefix(27, &filler(t), Some(d));
+            add("signature-v6", "hashed-area-len", d as u64, t, pkt(2, &b));
+            let mut b = sig6_prefix(27, &creation_subpkt(), None);
+            b.extend_from_slice(&be32(d));
+            b.extend(filler(t));
+            add("signature-v6", "unhashed-area-len", d as u64, t, pkt(2, &b));
+        }
+        // subpacket lengths in the three forms, several subpacket types (opaque, notation, embedded
+        // signature, preferred algorithms, unknown)
+        for styp in [2u8, 11, 20, 24, 26, 32, 33, 100, 127] {
+            for form in [1u8, 2, 5] {
+                let decls: Vec<u32> = match form {
+                    1 => vec![191],
+                    2 => vec![16319],
+                    _ => D4.to_vec(),
+                };
+                for d in decls {
+                    let mut area = subpkt_len(form, d);
+                    area.push(styp);
+                    area.extend(filler(t));
+                    // v4: area length truthful
+                    let mut b = sig4_prefix(22, &area, None);
+                    b.extend_from_slice(&be16(0));
+                    b.extend_from_slice(&[0, 0]);
+                    b.extend(mpi_declared(256, &[0x80; 32]));
+                    b.extend(mpi_declared(256, &[0x80; 32]));
+                    let f: &'static str = match form {
+                        1 => "subpacket-len1",
+                        2 => "subpacket-len2",
+                        _ => "subpacket-len5",
+                    };
+                    add("signature-v4", f, d as u64, t, pkt(2, &b));
+                    // v6: area length truthful, and area length lying as well
+                    let mut b = sig6_prefix(27, &area, None);
+                    b.extend_from_slice(&be32(0));
+                    b.extend_from_slice(&[0, 0, 32]);
+                    b.extend_from_slice(&[9; 32]);
+                    b.extend_from_slice(&[8; 64]);
+                    add("signature-v6", f, d as u64, t, pkt(2, &b));
+                    let b = sig6_prefix(27, &area, Some(d.saturating_add(6)));
+                    add("signature-v6", f, d as u64, t, pkt(2, &b));
+                }
+            }
+        }
+        // notation name / value lengths
+        for (nl, vl, f) in [(0xFFFFu16, 0u16, "notation-name-len"), (1, 0xFFFF, "notation-value-len"), (0xFFFF, 0xFFFF, "notation-both-len")] {
+            let mut sp = vec![0x80u8, 0, 0, 0];
+            sp.extend_from_slice(&be16(nl));
+            sp.extend_from_slice(&be16(vl));
+            sp.extend(filler(t));
+            let mut area = subpkt_len(1, sp.len() as u32 + 1);
+            area.push(20);
+            area.extend(sp);
+            let mut b = sig4_prefix(22, &area, None);
+            b.extend_from_slice(&be16(0));
+            b.extend_from_slice(&[0, 0]);
+            b.extend(mpi_declared(256, &[0x80; 32]));
+            b.extend(mpi_declared(256, &[0x80; 32]));
+            add("signature-v4", f, 0xFFFF, t, pkt(2, &b));
+        }
+        // MPI bit counts in the signature value (RSA one MPI, DSA/ECDSA/EdDSA two)
+        for (alg, f) in [(1u8, "rsa-mpi-bits"), (17, "dsa-mpi-bits"), (19, "ecdsa-mpi-bits"), (22, "eddsa-mpi-bits"), (16, "elgamal-mpi-bits"), (100, "private-mpi-bits")] {
+            for bits in [0xFFFFu16, 16384, 16385, 0x8000] {
+                let mut b = sig4_prefix(alg, &creation_subpkt(), None);
+                b.extend_from_slice(&be16(0));
+                b.extend_from_slice(&[0, 0]);
+                b.extend(mpi_declared(bits, &filler(t)));
+                add("signature-v4", f, bits as u64, t, pkt(2, &b));
+            }
+        }
+        // v6 salt length
+        let mut b = sig6_prefix(27, &creation_subpkt(), None);
+        b.extend_from_slice(&be32(0));
+        b.extend_from_slice(&[0, 0, 255]);
+        b.extend(filler(t));
+        add("signature-v6", "salt-len", 255, t, pkt(2, &b));
+        // v3 signature: hashed-material length octet and MPI
+        let mut b = vec![3u8, 5, 0, 0, 0, 0, 0, 1, 2, 3, 4, 5, 6, 7, 8, 1, 8, 0, 0];
+        b.extend(mpi_declared(0xFFFF, &filler(t)));
+        add("signature-v3", "rsa-mpi-bits", 0xFFFF, t, pkt(2, &b));
+        // embedded signature subpacket whose inner areas lie
+        let inner = sig6_prefix(27, &filler(t), Some(u32::MAX));
+        let mut area = subpkt_len(5, inner.len() as u32 + 1);
+        area.push(32);
+        area.extend(inner);
+        let mut b = sig4_prefix(22, &area, None);
+        b.extend_from_slice(&be16(0));
+        b.extend_from_slice(&[0, 0]);
+        b.extend(mpi_declared(256, &[0x80; 32]));
+        b.extend(mpi_declared(256, &[0x80; 32]));
+        add("signature-v4", "embedded-sig-hashed-area-len", u32::MAX as u64, t, pkt(2, &b));
+        // one-pass signature v6 salt length
+        let mut b = vec![6u8, 0, 8, 27, 255];
+        b.extend(filler(t));
+        add("ops-v6", "salt-len", 255, t, pkt(4, &b));
+    }
+
+    // ---- literal data: file-name length
+    for t in tails() {
+        let mut b = vec![b'b', 255];
+        b.extend(filler(t));
+        add("literal", "file-name-len", 255, t, pkt(11, &b));
+        let mut b = vec![b'u', 255];
+        b.extend(filler(t));
+        add("literal", "file-name-len", 255, t, pkt(11, &b));
+    }
+
+    // ---- key packets
+    for (tag, tname) in [(6u8, "public-key"), (14, "public-subkey"), (5, "secret-key"), (7, "secret-subkey")] {
+        for t in tails() {
+            // v6 key material octet count
+            for alg in [27u8, 25, 1, 28, 19, 18, 22, 99] {
+                for d in D4 {
+                    let mut b = vec![6u8, 0x65, 0x53, 0xF1, 0x00, alg];
+                    b.extend_from_slice(&be32(d));
+                    b.extend(filler(t));
+                    add(tname, "v6-key-material-len", d as u64, t, pkt(tag, &b));
+                }
+            }
+            // v4 MPI bit counts / curve OID length octet
+            for alg in [1u8, 16, 17] {
+                for bits in [0xFFFFu16, 16384, 16385] {
+                    let mut b = vec![4u8, 0x65, 0x53, 0xF1, 0x00, alg];
+                    b.extend(mpi_declared(bits, &filler(t)));
+                    add(tname, "v4-mpi-bits", bits as u64, t, pkt(tag, &b));
+                }
+            }
+            for alg in [18u8, 19, 22] {
+                let mut b = vec![4u8, 0x65, 0x53, 0xF1, 0x00, alg, 255];
+                b.extend(filler(t));
+                add(tname, "curve-oid-len", 255, t, pkt(tag, &b));
+                // known curve, then the point MPI lies
+                let mut b = vec![4u8, 0x65, 0x53, 0xF1, 0x00, alg, 8, 0x2A, 0x86, 0x48, 0xCE, 0x3D, 0x03, 0x01, 0x07];
+                b.extend(mpi_declared(0xFFFF, &filler(t)));
+                add(tname, "ec-point-mpi-bits", 0xFFFF, t, pkt(tag, &b));
+            }
+            // ECDH kdf parameter length octet
+            let mut b = vec![4u8, 0x65, 0x53, 0xF1, 0x00, 18, 8, 0x2A, 0x86, 0x48, 0xCE, 0x3D, 0x03, 0x01, 0x07];
+            let mut q = vec![4u8];
+            q.extend_from_slice(&[0x33; 64]);
+            b.extend(mpi_declared(515, &q));
+            b.push(255);
+            b.extend(filler(t));
+            add(tname, "ecdh-kdf-len", 255, t, pkt(tag, &b));
+            // v3 key
+            let mut b = vec![3u8, 0x65, 0x53, 0xF1, 0x00, 0, 1, 1];
+            b.extend(mpi_declared(0xFFFF, &filler(t)));
+            add(tname, "v3-mpi-bits", 0xFFFF, t, pkt(tag, &b));
+        }
+    }
+    // secret key specific fields (after a well-formed public part)
+    for (tag, tname) in [(5u8, "secret-key"), (7, "secret-subkey")] {
+        for t in tails() {
+            for (pubpart, ver) in [(v4_pubkey_ed25519_legacy(), 4u8), (v6_pubkey_ed25519(), 6), (v4_pubkey_rsa(), 4)] {
+                // unprotected: secret MPI lies
+                let mut b = pubpart.clone();
+                b.push(0);
+                b.extend(mpi_declared(0xFFFF, &filler(t)));
+                add(tname, "secret-mpi-bits", 0xFFFF, t, pkt(tag, &b));
+                for usage in [253u8, 254, 255] {
+                    // s2k parameter length octets (v6) / specifier with unknown type (rest())
+                    let mut b = pubpart.clone();
+                    b.push(usage);
+                    if ver == 6 {
+                        b.push(255); // cumulative s2k parameter length
+                    }
+                    b.push(9);
+                    if usage == 253 {
+                        b.push(2);
+                    }
+                    if ver == 6 && usage != 255 {
+                        b.push(255); // s2k specifier length
+                    }
+                    let s2k_start = b.len();
+                    for styp in [3u8, 4, 2, 101, 200] {
+                        let mut c = b[..s2k_start].to_vec();
+                        c.push(styp);
+                        c.extend(filler(t));
+                        add(tname, "s2k-len", 255, t, pkt(tag, &c));
+                    }
+                }
+                // legacy cfb with cipher octet: iv shorter than block
+                let mut b = pubpart.clone();
+                b.push(9);
+                b.extend(filler(t.min(15)));
+                add(tname, "legacy-iv", 16, t.min(15), pkt(tag, &b));
+            }
+        }
+    }
+
+    // ---- user attribute subpacket lengths
+    for t in tails() {
+        for form in [1u8, 2, 5] {
+            let decls: Vec<u32> = match form {
+                1 => vec![191],
+                2 => vec![16319],
+                _ => D4.to_vec(),
+            };
+            for d in decls {
+                for styp in [1u8, 2, 100] {
+                    let mut b = subpkt_len(form, d);
+                    b.push(styp);
+                    if styp == 1 {
+                        // image header: little-endian header length, version, format
+                        let hdr = [0x10u8, 0x00, 1, 1, 0, 0, 0, 0, 0, 0, 0, 0, 0, 0, 0, 0];
+                        b.extend_from_slice(&hdr[..t.min(16)]);
+                        b.extend(filler(t.saturating_sub(16)));
+                    } else {
+                        b.extend(filler(t));
+                    }
+                    let f: &'static str = match form {
+                        1 => "subpacket-len1",
+                        2 => "subpacket-len2",
+                        _ => "subpacket-len5",
+                    };
+                    add("user-attribute", f, d as u64, t, pkt(17, &b));
+                }
+            }
+        }
+        // image header length field (little endian u16)
+        let mut sp = vec![1u8, 0xFF, 0xFF, 1, 1];
+        sp.extend(filler(t));
+        let mut b = subpkt_len(1, sp.len() as u32);
+        b.extend(sp);
+        add("user-attribute", "image-header-len", 0xFFFF, t, pkt(17, &b));
+    }
+
+    // ---- PKESK
+    for t in tails() {
+        for alg in [1u8, 2, 16] {
+            for bits in [0xFFFFu16, 16384] {
+                let mut b = vec![3u8, 1, 2, 3, 4, 5, 6, 7, 8, alg];
+                b.extend(mpi_declared(bits, &filler(t)));
+                add("pkesk-v3", "mpi-bits", bits as u64, t, pkt(1, &b));
+            }
+        }
+        // ECDH: point MPI then 1-octet length
+        let mut b = vec![3u8, 1, 2, 3, 4, 5, 6, 7, 8, 18];
+        let mut q = vec![0x40u8];
+        q.extend_from_slice(&[0x33; 32]);
+        b.extend(mpi_declared(263, &q));
+        b.push(255);
+        b.extend(filler(t));
+        add("pkesk-v3", "ecdh-wrapped-len", 255, t, pkt(1, &b));
+        // X25519 / X448: ephemeral, then 1-octet length
+        for (alg, eph) in [(25u8, 32usize), (26, 56)] {
+            let mut b = vec![3u8, 1, 2, 3, 4, 5, 6, 7, 8, alg];
+            b.extend(vec![0x44u8; eph]);
+            b.push(255);
+            b.extend(filler(t));
+            add("pkesk-v3", "x-wrapped-len", 255, t, pkt(1, &b));
+            let mut b = vec![6u8, 33, 6];
+            b.extend_from_slice(&[0x55; 32]);
+            b.push(alg);
+            b.extend(vec![0x44u8; eph]);
+            b.push(255);
+            b.extend(filler(t));
+            add("pkesk-v6", "x-wrapped-len", 255, t, pkt(1, &b));
+        }
+        // v6 key-version/fingerprint length octet
+        let mut b = vec![6u8, 255];
+        b.extend(filler(t));
+        add("pkesk-v6", "fingerprint-len", 255, t, pkt(1, &b));
+    }
+
+    // ---- SKESK
+    for t in tails() {
+        for styp in [0u8, 1, 3, 4, 2, 101, 200] {
+            let mut b = vec![4u8, 9, styp];
+            b.extend(filler(t));
+            add("skesk-v4", "s2k", 0, t, pkt(3, &b));
+        }
+        let mut b = vec![6u8, 255, 9, 2, 255];
+        b.extend(filler(t));
+        add("skesk-v6", "count+s2k-len", 255, t, pkt(3, &b));
+        let mut b = vec![5u8, 9, 2, 3, 8];
+        b.extend(filler(t));
+        add("skesk-v5", "s2k", 0, t, pkt(3, &b));
+    }
+
+    // ---- containers: compressed (every algorithm) with header lengths that lie, encrypted containers
+    for t in tails() {
+        for alg in [0u8, 1, 2, 3, 99] {
+            for d in D4 {
+                let mut p = hdr_new5(8, d);
+                p.push(alg);
+                let inner: Vec<u8> = match alg {
+                    1 => {
+                        use flate2::write::DeflateEncoder;
+                        let mut e = DeflateEncoder::new(vec![], flate2::Compression::default());
+                        e.write_all(&literal(b"hi")).unwrap();
+                        e.finish().unwrap()
+                    }
+                    2 => {
+                        use flate2::write::ZlibEncoder;
+                        let mut e = ZlibEncoder::new(vec![], flate2::Compression::default());
+                        e.write_all(&literal(b"hi")).unwrap();
+                        e.finish().unwrap()
+                    }
+                    3 => b"BZh91AY&SY".to_vec(),
+                    _ => literal(b"hi"),
+                };
+                p.extend_from_slice(&inner[..t.min(inner.len())]);
+                add("compressed", "container-len", d as u64, t.min(inner.len()), p);
+            }
+        }
+        // stored container whose inner literal lies about its length
+        let mut inner = hdr_new5(11, u32::MAX);
+        inner.extend_from_slice(&[b'b', 0, 0, 0, 0, 0]);
+        inner.extend(filler(t));
+        let mut b = vec![0u8];
+        b.extend(inner);
+        add("compressed", "inner-literal-len", u32::MAX as u64, t, pkt(8, &b));
+    }
+    // SEIPDv2 / GnuPG AEAD: every chunk size octet, opened with a session key (documented buffer)
+    for c in 0u16..=255 {
+        let c = c as u8;
+        let mut b = vec![2u8, 7, 2, c];
+        b.extend_from_slice(&[7u8; 32]);
+        b.extend(filler(40));
+        add("seipd-v2", "chunk-size-octet", if c <= 56 { 1u64 << (c as u32 + 6) } else { u64::MAX }, 40, pkt(18, &b));
+        let mut b = vec![1u8, 7, 2, c];
+        b.extend_from_slice(&[7u8; 15]);
+        b.extend(filler(40));
+        add("gnupg-aead", "chunk-size-octet", if c <= 56 { 1u64 << (c as u32 + 6) } else { u64::MAX }, 40, pkt(20, &b));
+    }
+    for t in tails() {
+        for d in D4 {
+            // SKESK v4 (simple s2k => session key derivable) + SEIPDv1 with lying length
+            let mut p = pkt(3, &[4u8, 7, 0, 8]);
+            p.extend(hdr_new5(18, d));
+            p.push(1);
+            p.extend(filler(t));
+            add("seipd-v1", "container-len", d as u64, t, p);
+            let mut p = pkt(3, &[4u8, 7, 0, 8]);
+            p.extend(hdr_new5(9, d));
+            p.extend(filler(t));
+            add("sed", "container-len", d as u64, t, p);
+            let mut p = hdr_new5(18, d);
+            p.extend_from_slice(&[2u8, 7, 2, 0]);
+            p.extend_from_slice(&[7u8; 32]);
+            p.extend(filler(t));
+            add("seipd-v2", "container-len", d as u64, t, p);
+        }
+    }
+
+    // ---- padding / marker / trust / user id with 5-octet lengths are in the header family above.
+    v
+}
+
+fn b64_armor(kind: &str, data: &[u8]) -> Vec<u8> {
+    rfc::armor::armor_encode(kind, &[], data, true, "\n").into_bytes()
+}
+
+fn w1(ctx: &mut Ctx) {
+    let cases = w1_cases();
+    let mut scratch = vec![0u8; 64 * 1024];
+    // group cases: one `mine()` per chunk of 64 cases
+    let group = 64usize;
+    let mut max_excess: i64 = i64::MIN;
+    for (gi, chunk) in cases.chunks(group).enumerate() {
+        if !ctx.mine() {
+            continue;
+        }
+        describe_case(&format!("W1 group {gi} ({}/{})", chunk[0].ptype, chunk[0].field));
+        for c in chunk {
+            let (aead_allow, bz) = documented_buffers(&c.data);
+            let allow = aead_allow + if bz { BZIP2_ALLOW } else { 0 };
+            // armored renderings (prebuilt outside the measured region)
+            let arm_msg = b64_armor("PGP MESSAGE", &c.data);
+            let arm_key = b64_armor("PGP PUBLIC KEY BLOCK", &c.data);
+            let csf = {
+                let mut s = b"-----BEGIN PGP SIGNED MESSAGE-----\nHash: SHA256\n\nhello\n".to_vec();
+                s.extend(b64_armor("PGP SIGNATURE", &c.data));
+                s
+            };
+            let mut any_ok = false;
+            for e in Entry::BINARY.iter().chain(Entry::ARMORED.iter()) {
+                let input: &[u8] = match e {
+                    Entry::Dearmor | Entry::ArmoredMessage => &arm_msg,
+                    Entry::ArmoredKey => &arm_key,
+                    Entry::Cleartext => &csf,
+                    _ => &c.data,
+                };
+                let o = observe(*e, input, &mut scratch);
+                ctx.eval();
+                any_ok |= o.ok;
+                judge_w1(ctx, c.ptype, c.field, c.declared, input, allow, e.name(), &o);
+                let ex = o.st.peak as i64 - (W1_K * input.len() as u64 + allow) as i64;
+                max_excess = max_excess.max(ex);
+            }
+            ctx.cover(&("W1", c.ptype, c.field, c.declared, c.tail, &c.data));
+            ctx.seen("W1.fields", format!("{}/{}", c.ptype, c.field));
+            ctx.tally(if any_ok { "W1.some-entry-accepted" } else { "W1.all-entries-rejected" }, 1);
+        }
+        if gi % 16 == 0 {
+            let c = &chunk[0];
+            ctx.sample(json!({"family": "W1", "ptype": c.ptype, "field": c.field, "declared": c.declared, "input": hexs(&c.data)}));
+        }
+    }
+    if max_excess > i64::MIN {
+        let kib = (max_excess.max(0) as u64).div_ceil(KIB);
+        ctx.seen("W1.max_peak_minus_16x_input_KiB(bucket)", format!("<= {} KiB", kib.next_power_of_two()));
+        dbg_line!("W1 max excess {} bytes", max_excess);
+    }
+}
+
+fn judge_w1(
+    ctx: &mut Ctx,
+    ptype: &str,
+    field: &str,
+    declared: u64,
+    input: &[u8],
+    allow: u64,
+    entry: &str,
+    o: &Obs,
+) {
+    let replay = || json!({"entry": entry, "ptype": ptype, "field": field, "declared": declared, "input": hexs(input)});
+    if let Some(loc) = &o.panicked {
+        // panics are C04's business; noted here so the measurement is not silently lost
+        ctx.tally("W1.panicked(see C04)", 1);
+        ctx.note(format!("W1: {entry} panicked at {loc} on a {ptype}/{field} input (not judged here)"));
+    }
+    let bound = W1_C0 + W1_K * input.len() as u64 + allow;
+    if o.st.peak > bound {
+        ctx.violation(
+            format!("C19/W1/peak-exceeds-input-bound/{ptype}/{field}"),
+            format!(
+                "{entry}: peak allocation {} bytes for an input of {} bytes (bound {} = 256 KiB + 16*|input| + documented buffers {}), declared length {}, largest single allocation {}",
+                o.st.peak, input.len(), bound, allow, declared, o.st.max_single
+            ),
+            replay(),
+        );
+    }
+    if declared >= MIB && declared != u64::MAX && input.len() < 64 * 1024 && o.st.max_single >= declared / 2 && o.st.max_single > allow {
+        ctx.violation(
+            format!("C19/W1/alloc-follows-declared-length/{ptype}/{field}"),
+            format!(
+                "{entry}: a single allocation of {} bytes while the input has {} bytes and the field declares {}",
+                o.st.max_single, input.len(), declared
+            ),
+            replay(),
+        );
+    }
+    if o.cpu > 2.0 && input.len() < 64 * 1024 {
+        ctx.violation(
+            format!("C19/W1/work-follows-declared-length/{ptype}/{field}"),
+            format!("{entry}: {:.2} s CPU for an input of {} bytes (declared {})", o.cpu, input.len(), declared),
+            replay(),
+        );
+    }
+}
+
+// ------------------------------------------------------------------------------------------
+// W1b: position sweep over artefacts made by the library itself. Every offset of every packet body is
+// overwritten with a huge big-endian value of every width a length field can have, so that length
+// fields the hand-made table does not name (and fields deep inside valid framing) are lied about too.
+
+struct Template {
+    name: &'static str,
+    stream: Vec<u8>,
+    entries: Vec<Entry>,
+}
+
+fn cheap_s2k() -> StringToKey {
+    StringToKey::IteratedAndSalted { hash_alg: HashAlgorithm::Sha256, salt: [3u8; 8], count: 0 }
+}
+
+fn templates() -> Vec<Template> {
+    let mut out = vec![];
+    let k4 = zoo::key(&zoo::Spec::simple(false, zoo::Alg::Ed25519Legacy, Some(zoo::Alg::EcdhCv25519)), 0);
+    let k6 = zoo::key(&zoo::Spec::simple(true, zoo::Alg::Ed25519, Some(zoo::Alg::X25519)), 0);
+    let p4 = k4.to_public_key();
+    let p6 = k6.to_public_key();
+    let pw = Password::from("pw");
+    let rng = || ChaCha8Rng::seed_from_u64(19);
+    out.push(Template { name: "tsk-v4", stream: k4.to_bytes().unwrap(), entries: vec![Entry::Packets, Entry::SecretKey] });
+    out.push(Template { name: "tsk-v6", stream: k6.to_bytes().unwrap(), entries: vec![Entry::Packets, Entry::SecretKey] });
+    out.push(Template { name: "cert-v4", stream: p4.to_bytes().unwrap(), entries: vec![Entry::Packets, Entry::PublicKey] });
+    out.push(Template { name: "cert-v6", stream: p6.to_bytes().unwrap(), entries: vec![Entry::Packets, Entry::PublicKey] });
+    // signed message, not compressed: OPS, literal, signature
+    let text = b"The quick brown fox jumps over the lazy dog.\r\n".repeat(3);
+    for (name, key) in [("msg-signed-v4", &k4), ("msg-signed-v6", &k6)] {
+        let mut b = MessageBuilder::from_bytes("f.txt", text.clone());
+        b.sign(&key.primary_key, Password::empty(), HashAlgorithm::Sha256);
+        out.push(Template { name, stream: b.to_vec(rng()).unwrap(), entries: vec![Entry::Packets, Entry::Message] });
+    }
+    // compressed + signed
+    for (name, alg) in [("msg-zlib", CompressionAlgorithm::ZLIB), ("msg-zip", CompressionAlgorithm::ZIP), ("msg-bzip2", CompressionAlgorithm::BZip2)] {
+        let mut b = MessageBuilder::from_bytes("", text.clone());
+        b.compression(alg);
+        b.sign(&k4.primary_key, Password::empty(), HashAlgorithm::Sha256);
+        out.push(Template { name, stream: b.to_vec(rng()).unwrap(), entries: vec![Entry::Packets, Entry::Message] });
+    }
+    // encrypted to key + password
+    {
+        let mut b = MessageBuilder::from_bytes("", text.clone()).seipd_v1(rng(), SymmetricKeyAlgorithm::AES128);
+        b.encrypt_to_key(rng(), &p4.public_subkeys[0]).unwrap();
+        b.encrypt_with_password(cheap_s2k(), &pw).unwrap();
+        out.push(Template { name: "msg-seipd1", stream: b.to_vec(rng()).unwrap(), entries: vec![Entry::Packets, Entry::Message] });
+        let mut b = MessageBuilder::from_bytes("", text.clone()).seipd_v2(rng(), SymmetricKeyAlgorithm::AES128, AeadAlgorithm::Ocb, ChunkSize::C64B);
+        b.encrypt_to_key(rng(), &p6.public_subkeys[0]).unwrap();
+        b.encrypt_with_password(rng(), cheap_s2k(), &pw).unwrap();
+        out.push(Template { name: "msg-seipd2", stream: b.to_vec(rng()).unwrap(), entries: vec![Entry::Packets, Entry::Message] });
+    }
+    // detached signatures
+    for (name, key) in [("detached-v4", &k4), ("detached-v6", &k6)] {
+        let sig = DetachedSignature::sign_binary_data(rng(), &key.primary_key, &Password::empty(), HashAlgorithm::Sha256, &text[..]).unwrap();
+        let mut stream = vec![];
+        sig.signature.to_writer_with_header(&mut stream).unwrap();
+        out.push(Template { name, stream, entries: vec![Entry::Packets, Entry::DetachedSig] });
+    }
+    out
+}
+
+fn w1b(ctx: &mut Ctx) {
+    let tpls = templates();
+    let mut scratch = vec![0u8; 64 * 1024];
+    let max_off = ctx.qt(160usize, 600usize);
+    // (width, value, declared)
+    let muts: Vec<(usize, Vec<u8>, u64)> = {
+        let mut m = vec![
+            (1usize, vec![0xFFu8], 255u64),
+            (2, vec![0xFF, 0xFF], 0xFFFF),
+            (4, be32(1 << 24).to_vec(), 1 << 24),
+            (4, be32(u32::MAX).to_vec(), u32::MAX as u64),
+            (5, { let mut v = vec![0xFFu8]; v.extend_from_slice(&be32(u32::MAX)); v }, u32::MAX as u64),
+        ];
+        if !ctx.quick() {
+            m.push((4, be32(1 << 31).to_vec(), 1 << 31));
+            m.push((4, be32(1 << 16).to_vec(), 1 << 16));
+            m.push((2, vec![0x80, 0x00], 0x8000));
+        }
+        m
+    };
+    for t in &tpls {
+        let pkts = match rfc::frame::deframe(&t.stream) {
+            Ok(p) => p,
+            Err(e) => {
+                ctx.mine();
+                ctx.inconclusive(format!("W1b: reference cannot deframe template {}: {e}", t.name));
+                continue;
+            }
+        };
+        for (pi, p) in pkts.iter().enumerate() {
+            if !ctx.mine() {
+                continue;
+            }
+            describe_case(&format!("W1b sweep {} packet {} (tag {})", t.name, pi, p.tag));
+            let prefix = &t.stream[..p.offset];
+            let suffix = &t.stream[p.offset + p.encoded_len..];
+            let nmax = p.body.len().min(max_off);
+            for o in 0..nmax {
+                for (w, val, declared) in &muts {
+                    for variant in 0..2 {
+                        let mut body = p.body.clone();
+                        if variant == 0 {
+                            // overwrite in place (body keeps its size where possible)
+                            if o + w > body.len() {
+                                body.truncate(o);
+                                body.extend_from_slice(val);
+                            } else {
+                                body[o..o + w].copy_from_slice(val);
+                            }
+                        } else {
+                            // cut the body 8 octets after the field
+                            body.truncate(o);
+                            body.extend_from_slice(val);
+                            let keep = (o + w + 8).min(p.body.len());
+                            if o + w < keep {
+                                body.extend_from_slice(&p.body[o + w..keep]);
+                            }
+                        }
+                        let mut stream = prefix.to_vec();
+                        stream.extend(pkt(p.tag, &body));
+                        if variant == 0 {
+                            stream.extend_from_slice(suffix);
+                        }
+                        let (aead_allow, bz) = documented_buffers(&stream);
+                        let bz = bz || t.name == "msg-bzip2";
+                        let allow = aead_allow + if bz { BZIP2_ALLOW } else { 0 };
+                        for e in &t.entries {
+                            let ob = observe(*e, &stream, &mut scratch);
+                            ctx.eval();
+                            judge_w1(ctx, t.name, "sweep", *declared, &stream, allow, e.name(), &ob);
+                            if ob.ok {
+                                ctx.tally("W1b.accepted", 1);
+                            }
+                        }
+                    }
+                }
+                ctx.cover(&("W1b", t.name, pi, o));
+            }
+            ctx.seen("W1b.templates", format!("{}#{}(tag{})", t.name, pi, p.tag));
+            if pi == 0 {
+                ctx.sample(json!({"family": "W1b", "template": t.name, "stream": hexs(&t.stream), "offsets": nmax, "mutations": muts.len() * 2}));
+            }
+        }
+    }
+}
+
+// ------------------------------------------------------------------------------------------
+// process isolation for the few cases that may take the whole process down when the library is
+// broken (stack exhaustion on deep nesting, multi-GiB Argon2 allocations): fork, apply resource limits,
+// run, report through a pipe. The counting allocator and the CPU clock work in the child as usual.
+
+enum ChildOutcome {
+    /// the closure returned these bytes
+    Done(Vec<u8>),
+    /// the closure panicked (location)
+    Panicked(String),
+    /// the child was killed by this signal
+    Signal(i32),
+    /// could not fork / wait
+    Failed(String),
+}
+
+fn vm_size_bytes() -> u64 {
+    std::fs::read_to_string("/proc/self/statm")
+        .ok()
+        .and_then(|s| s.split_whitespace().next().and_then(|x| x.parse::<u64>().ok()))
+        .map(|pages| pages * 4096)
+        .unwrap_or(1 << 30)
+}
+
+fn in_child(extra_address_space: Option<u64>, cpu_limit_s: u64, f: impl FnOnce() -> Vec<u8>) -> ChildOutcome {
+    use std::os::fd::FromRawFd;
+    let as_limit = extra_address_space.map(|x| vm_size_bytes() + x);
+    let mut fds = [0i32; 2];
+    if unsafe { libc::pipe(fds.as_mut_ptr()) } != 0 {
+        return ChildOutcome::Failed("pipe".into());
+    }
+    let pid = unsafe { libc::fork() };
+    if pid < 0 {
+        unsafe {
+            libc::close(fds[0]);
+            libc::close(fds[1]);
+        }
+        return ChildOutcome::Failed("fork".into());
+    }
+    if pid == 0 {
+        unsafe {
+            libc::close(fds[0]);
+            for sig in [libc::SIGSEGV, libc::SIGABRT, libc::SIGBUS, libc::SIGILL] {
+                libc::signal(sig, libc::SIG_DFL);
+            }
+            let zero = libc::rlimit { rlim_cur: 0, rlim_max: 0 };
+            libc::setrlimit(libc::RLIMIT_CORE, &zero);
+            let cpu = libc::rlimit { rlim_cur: cpu_limit_s, rlim_max: cpu_limit_s + 1 };
+            libc::setrlimit(libc::RLIMIT_CPU, &cpu);
+            if let Some(a) = as_limit {
+                let l = libc::rlimit { rlim_cur: a, rlim_max: a };
+                libc::setrlimit(libc::RLIMIT_AS, &l);
+            }
+        }
+        let out = match crate::core::guard(f) {
+            Ok(mut v) => {
+                v.insert(0, 0u8);
+                v
+            }
+            Err(p) => {
+                let mut v = vec![1u8];
+                v.extend_from_slice(p.short_loc().as_bytes());
+                v
+            }
+        };
+        let mut off = 0;
+        while off < out.len() {
+            let n = unsafe { libc::write(fds[1], out[off..].as_ptr() as *const libc::c_void, out.len() - off) };
+            if n <= 0 {
+                break;
+            }
+            off += n as usize;
+        }
+        unsafe { libc::_exit(0) };
+    }
+    unsafe { libc::close(fds[1]) };
+    let mut rd = unsafe { std::fs::File::from_raw_fd(fds[0]) };
+    let mut buf = vec![];
+    let _ = rd.read_to_end(&mut buf);
+    drop(rd);
+    let mut status = 0i32;
+    let r = unsafe { libc::waitpid(pid, &mut status, 0) };
+    if r != pid {
+        return ChildOutcome::Failed("waitpid".into());
+    }
+    if libc::WIFSIGNALED(status) {
+        return ChildOutcome::Signal(libc::WTERMSIG(status));
+    }
+    match buf.first() {
+        Some(0) => ChildOutcome::Done(buf[1..].to_vec()),
+        Some(1) => ChildOutcome::Panicked(String::from_utf8_lossy(&buf[1..]).into_owned()),
+        _ => ChildOutcome::Failed(format!("child exited with status {status} and no report")),
+    }
+}
+
+// ------------------------------------------------------------------------------------------
+// W2: repeated structures — scaling of CPU time and of peak memory
+
+/// What is run over a generated input.
+#[derive(Clone, Copy, Debug, PartialEq, Eq)]
+enum Runner {
+    /// `PacketParser` to the end
+    Packets,
+    /// `Message::from_bytes`, open every layer (unbounded depth), stream the content
+    MessageDeep,
+    PublicKey,
+    DetachedSig,
+    /// `CleartextSignedMessage::from_armor` (which wraps the source in a `BufReader`)
+    Cleartext,
+    /// `Dearmor` over a `BufReader`, streamed to the end
+    Dearmor,
+    /// `SignedPublicKey::from_armor_single`
+    ArmoredKey,
+    /// `Message::from_armor` over a `BufReader`, every layer opened, content streamed
+    ArmoredMessage,
+}
+
+struct Family {
+    name: &'static str,
+    runner: Runner,
+    /// smallest n worth timing
+    n0: usize,
+    /// generator: n -> input
+    gen: fn(usize) -> Vec<u8>,
+    /// peak memory bound: c0 + k * |input|  (k calibrated per family, >= 4x headroom)
+    mem_k: u64,
+    /// additional allowance per repeated element (containers carry fixed buffers per layer)
+    mem_per_elem: u64,
+    /// run every point in a forked child (deep nesting may exhaust the stack)
+    isolate: bool,
+}
+
+fn rep(unit: &[u8], n: usize) -> Vec<u8> {
+    let mut v = Vec::with_capacity(unit.len() * n + 64);
+    for _ in 0..n {
+        v.extend_from_slice(unit);
+    }
+    v
+}
+
+fn gen_markers(n: usize) -> Vec<u8> {
+    let mut v = rep(&pkt(10, b"PGP"), n);
+    v.extend(literal(b"x"));
+    v
+}
+fn gen_padding(n: usize) -> Vec<u8> {
+    let mut v = rep(&pkt(21, &[0xAA, 0xBB]), n);
+    v.extend(literal(b"x"));
+    v
+}
+fn gen_private(n: usize) -> Vec<u8> {
+    let mut v = rep(&pkt(60, &[1, 2, 3]), n);
+    v.extend(literal(b"x"));
+    v
+}
+fn gen_trust(n: usize) -> Vec<u8> {
+    // certificate: key, uid, then n trust packets
+    let mut v = pkt(6, &v4_pubkey_ed25519_legacy());
+    v.extend(pkt(13, b"a"));
+    v.extend(rep(&pkt(12, &[1, 2]), n));
+    v
+}
+fn gen_sig_prefix(n: usize) -> Vec<u8> {
+    let mut v = rep(&pkt(2, &sig4_complete()), n);
+    v.extend(literal(b"x"));
+    v
+}
+fn gen_ops(n: usize) -> Vec<u8> {
+    let ops = pkt(4, &[3u8, 0, 8, 22, 1, 2, 3, 4, 5, 6, 7, 8, 0]);
+    let mut v = rep(&ops, n);
+    v.extend(literal(b"x"));
+    v.extend(rep(&pkt(2, &sig4_complete()), n));
+    v
+}
+fn gen_ops_unterminated(n: usize) -> Vec<u8> {
+    let ops = pkt(4, &[3u8, 0, 8, 22, 1, 2, 3, 4, 5, 6, 7, 8, 0]);
+    let mut v = rep(&ops, n);
+    v.extend(literal(b"x"));
+    v
+}
+fn gen_nested_stored(n: usize) -> Vec<u8> {
+    let mut cur = literal(b"x");
+    for _ in 0..n {
+        let mut b = Vec::with_capacity(cur.len() + 8);
+        b.push(0u8);
+        b.extend_from_slice(&cur);
+        cur = pkt(8, &b);
+    }
+    cur
+}
+fn gen_nested_zlib(n: usize) -> Vec<u8> {
+    use flate2::write::ZlibEncoder;
+    let mut cur = literal(b"x");
+    for _ in 0..n {
+        let mut e = ZlibEncoder::new(vec![2u8], flate2::Compression::none());
+        e.write_all(&cur).unwrap();
+        cur = pkt(8, &e.finish().unwrap());
+    }
+    cur
+}
+fn gen_subpackets_v6(n: usize) -> Vec<u8> {
+    // n "exportable certification" subpackets (3 octets each) in the hashed area of a v6 signature
+    let area = rep(&[2u8, 4, 1], n);
+    let mut b = sig6_prefix(27, &area, None);
+    b.extend_from_slice(&be32(0));
+    b.extend_from_slice(&[0, 0, 32]);
+    b.extend_from_slice(&[9; 32]);
+    b.extend_from_slice(&[8; 64]);
+    pkt(2, &b)
+}
+fn gen_subpackets_unknown_v6(n: usize) -> Vec<u8> {
+    // unknown non-critical subpackets with 2-octet bodies, unhashed area
+    let area = rep(&[3u8, 99, 1, 2], n);
+    let mut b = sig6_prefix(27, &creation_subpkt(), None);
+    b.extend_from_slice(&be32(area.len() as u32));
+    b.extend_from_slice(&area);
+    b.extend_from_slice(&[0, 0, 32]);
+    b.extend_from_slice(&[9; 32]);
+    b.extend_from_slice(&[8; 64]);
+    pkt(2, &b)
+}
+fn gen_embedded_sigs(n: usize) -> Vec<u8> {
+    // n embedded-signature subpackets each holding a complete small signature
+    let inner = sig4_complete();
+    let mut sp = subpkt_len(1, inner.len() as u32 + 1);
+    sp.push(32);
+    sp.extend_from_slice(&inner);
+    let area = rep(&sp, n);
+    let mut b = sig6_prefix(27, &creation_subpkt(), None);
+    b.extend_from_slice(&be32(area.len() as u32));
+    b.extend_from_slice(&area);
+    b.extend_from_slice(&[0, 0, 32]);
+    b.extend_from_slice(&[9; 32]);
+    b.extend_from_slice(&[8; 64]);
+    pkt(2, &b)
+}
+fn gen_user_attrs(n: usize) -> Vec<u8> {
+    let mut v = pkt(6, &v4_pubkey_ed25519_legacy());
+    v.extend(pkt(13, b"a"));
+    v.extend(rep(&pkt(17, &[2u8, 100, 7]), n));
+    v
+}
+fn gen_uids(n: usize) -> Vec<u8> {
+    let mut v = pkt(6, &v4_pubkey_ed25519_legacy());
+    v.extend(rep(&pkt(13, b"a"), n));
+    v
+}
+fn gen_uid_sigs(n: usize) -> Vec<u8> {
+    let mut v = pkt(6, &v4_pubkey_ed25519_legacy());
+    v.extend(pkt(13, b"a"));
+    let mut sig = sig4_complete();
+    sig[1] = 0x10;
+    v.extend(rep(&pkt(2, &sig), n));
+    v
+}
+fn gen_subkeys(n: usize) -> Vec<u8> {
+    let mut v = pkt(6, &v4_pubkey_ed25519_legacy());
+    v.extend(pkt(13, b"a"));
+    let mut unit = pkt(14, &v4_pubkey_ed25519_legacy());
+    let mut sig = sig4_complete();
+    sig[1] = 0x18;
+    unit.extend(pkt(2, &sig));
+    v.extend(rep(&unit, n));
+    v
+}
+fn gen_partial_1byte(n: usize) -> Vec<u8> {
+    // literal: first partial chunk of 512, then n partial chunks of one octet, final length 0
+    let mut v = vec![0xC0 | 11, 224 + 9, b'b', 0, 0, 0, 0, 0];
+    v.extend(filler(506));
+    v.extend(rep(&[224u8, b'z'], n));
+    v.push(0);
+    v
+}
+fn gen_esks(n: usize) -> Vec<u8> {
+    // n SKESK v4 (simple S2K) + n PKESK v3 for unknown recipients, then a SEIPDv1 body of garbage
+    let mut unit = pkt(3, &[4u8, 7, 0, 8]);
+    let mut pk = vec![3u8, 1, 2, 3, 4, 5, 6, 7, 8, 1];
+    pk.extend(mpi_declared(64, &[0x99; 8]));
+    unit.extend(pkt(1, &pk));
+    let mut v = rep(&unit, n);
+    let mut body = vec![1u8];
+    body.extend(filler(64));
+    v.extend(pkt(18, &body));
+    v
+}
+const CSF_HEAD: &[u8] = b"-----BEGIN PGP SIGNED MESSAGE-----\nHash: SHA256\n\n";
+fn gen_csf_unterminated(n: usize) -> Vec<u8> {
+    let mut v = CSF_HEAD.to_vec();
+    v.extend(rep(b"line of text\n", n));
+    v
+}
+fn gen_csf_dashes(n: usize) -> Vec<u8> {
+    let mut v = CSF_HEAD.to_vec();
+    v.extend(rep(b"- -dash escaped\n", n));
+    v.extend_from_slice(b"-----BEGIN PGP SIGNATURE-----\n\n");
+    v.extend_from_slice(rfc::armor::b64_encode(&pkt(2, &sig4_complete())).as_bytes());
+    v.extend_from_slice(b"\n-----END PGP SIGNATURE-----\n");
+    v
+}
+fn gen_csf_one_long_line(n: usize) -> Vec<u8> {
+    let mut v = CSF_HEAD.to_vec();
+    v.extend(rep(b"a", n));
+    v
+}
+fn gen_csf_hash_headers(n: usize) -> Vec<u8> {
+    let mut v = b"-----BEGIN PGP SIGNED MESSAGE-----\n".to_vec();
+    v.extend(rep(b"Hash: SHA256\n", n));
+    v.extend_from_slice(b"\nhello\n");
+    v
+}
+fn gen_armor_long_header_value(n: usize) -> Vec<u8> {
+    let mut v = b"-----BEGIN PGP MESSAGE-----\nComment: ".to_vec();
+    v.extend(rep(b"c", n));
+    v
+}
+fn gen_armor_many_headers(n: usize) -> Vec<u8> {
+    let mut v = b"-----BEGIN PGP MESSAGE-----\n".to_vec();
+    v.extend(rep(b"Comment: x\n", n));
+    v.extend_from_slice(b"\n");
+    v.extend_from_slice(rfc::armor::b64_encode(&literal(b"x")).as_bytes());
+    v.extend_from_slice(b"\n-----END PGP MESSAGE-----\n");
+    v
+}
+fn gen_armor_leading_garbage(n: usize) -> Vec<u8> {
+    let mut v = rep(b"g", n);
+    v.extend_from_slice(b"\n-----BEGIN PGP MESSAGE-----\n\n");
+    v.extend_from_slice(rfc::armor::b64_encode(&literal(b"x")).as_bytes());
+    v.extend_from_slice(b"\n-----END PGP MESSAGE-----\n");
+    v
+}
+fn gen_armor_leading_lines(n: usize) -> Vec<u8> {
+    let mut v = rep(b"some text\n", n);
+    v.extend_from_slice(b"-----BEGIN PGP MESSAGE-----\n\n");
+    v.extend_from_slice(rfc::armor::b64_encode(&literal(b"x")).as_bytes());
+    v.extend_from_slice(b"\n-----END PGP MESSAGE-----\n");
+    v
+}
+fn gen_armor_b64_garbage(n: usize) -> Vec<u8> {
+    // valid alphabet, no line breaks, no footer
+    let mut v = b"-----BEGIN PGP MESSAGE-----\n\n".to_vec();
+    v.extend(rep(b"QUJD", n / 4));
+    v
+}
+fn gen_armor_b64_markers(n: usize) -> Vec<u8> {
+    // base64 of n marker packets and a literal, properly wrapped, no footer
+    let mut v = b"-----BEGIN PGP MESSAGE-----\n\n".to_vec();
+    let b64 = rfc::armor::b64_encode(&gen_markers(n));
+    for l in b64.as_bytes().chunks(64) {
+        v.extend_from_slice(l);
+        v.push(b'\n');
+    }
+    v
+}
+fn gen_armor_equals(n: usize) -> Vec<u8> {
+    let mut v = b"-----BEGIN PGP MESSAGE-----\n\nQUJD\n".to_vec();
+    v.extend(rep(b"=", n));
+    v
+}
+fn gen_armor_newlines(n: usize) -> Vec<u8> {
+    let mut v = b"-----BEGIN PGP MESSAGE-----\n\nQUJD\n".to_vec();
+    v.extend(rep(b"\n", n));
+    v.extend_from_slice(b"=abcd\n-----END PGP MESSAGE-----\n");
+    v
+}
+fn gen_armor_spaces(n: usize) -> Vec<u8> {
+    let mut v = b"-----BEGIN PGP MESSAGE-----\n".to_vec();
+    v.extend(rep(b" ", n));
+    v.extend_from_slice(b"\nQUJD\n-----END PGP MESSAGE-----\n");
+    v
+}
+fn gen_armor_crlf_short_lines(n: usize) -> Vec<u8> {
+    // four characters per line, CRLF line ends: as many line breaks as the format can carry
+    let mut v = b"-----BEGIN PGP MESSAGE-----\r\n\r\n".to_vec();
+    let b64 = rfc::armor::b64_encode(&gen_markers(n / 5));
+    for l in b64.as_bytes().chunks(4) {
+        v.extend_from_slice(l);
+        v.extend_from_slice(b"\r\n");
+    }
+    v.extend_from_slice(b"-----END PGP MESSAGE-----\r\n");
+    v
+}
+fn gen_armor_key_uids(n: usize) -> Vec<u8> {
+    b64_armor("PGP PUBLIC KEY BLOCK", &gen_uids(n))
+}
+
+fn families() -> Vec<Family> {
+    let f = |name, runner, n0, gen: fn(usize) -> Vec<u8>, mem_k, mem_per_elem| Family { name, runner, n0, gen, mem_k, mem_per_elem, isolate: false };
+    let iso = |mut f: Family| {
+        f.isolate = true;
+        f
+    };
+    const PE: u64 = 1024; // per parsed element: structs, boxes, small vectors (measured <= 150 bytes)
+    const PL: u64 = 64 * 1024; // per container layer: 8 KiB reader buffers + inflate state (measured <= 16.7 KiB)
+    vec![
+        f("marker-packets", Runner::MessageDeep, 80_000, gen_markers, 16, PE),
+        f("padding-packets", Runner::MessageDeep, 80_000, gen_padding, 16, PE),
+        f("private-packets", Runner::MessageDeep, 80_000, gen_private, 16, PE),
+        f("marker-packets/PacketParser", Runner::Packets, 80_000, gen_markers, 16, PE),
+        f("trust-packets", Runner::Packets, 80_000, gen_trust, 16, PE),
+        f("signature-prefix-packets", Runner::MessageDeep, 8_000, gen_sig_prefix, 16, PE),
+        f("one-pass-signature-packets", Runner::MessageDeep, 8_000, gen_ops, 16, PE),
+        f("one-pass-signature-packets-unterminated", Runner::MessageDeep, 32_000, gen_ops_unterminated, 16, PE),
+        iso(f("nested-compression-stored", Runner::MessageDeep, 2_000, gen_nested_stored, 16, PL)),
+        iso(f("nested-compression-zlib", Runner::MessageDeep, 1_000, gen_nested_zlib, 16, PL)),
+        f("signature-subpackets-v6", Runner::DetachedSig, 80_000, gen_subpackets_v6, 16, PE),
+        f("signature-subpackets-unknown-v6", Runner::Packets, 80_000, gen_subpackets_unknown_v6, 16, PE),
+        f("signature-embedded-signatures", Runner::Packets, 8_000, gen_embedded_sigs, 16, PE),
+        f("certificate-user-ids", Runner::PublicKey, 40_000, gen_uids, 16, PE),
+        f("certificate-user-attributes", Runner::PublicKey, 40_000, gen_user_attrs, 16, PE),
+        f("certificate-uid-signatures", Runner::PublicKey, 8_000, gen_uid_sigs, 16, PE),
+        f("certificate-subkeys", Runner::PublicKey, 4_000, gen_subkeys, 16, PE),
+        f("literal-one-octet-partial-chunks", Runner::MessageDeep, 200_000, gen_partial_1byte, 16, PE),
+        f("esk-packets", Runner::MessageDeep, 8_000, gen_esks, 16, PE),
+        f("cleartext-unterminated-lines", Runner::Cleartext, 40_000, gen_csf_unterminated, 16, 0),
+        f("cleartext-dash-escaped-lines", Runner::Cleartext, 40_000, gen_csf_dashes, 16, 0),
+        f("cleartext-one-long-line", Runner::Cleartext, 1_000_000, gen_csf_one_long_line, 16, 0),
+        f("cleartext-hash-headers", Runner::Cleartext, 100_000, gen_csf_hash_headers, 16, 0),
+        f("armor-long-header-value", Runner::Dearmor, 1_000_000, gen_armor_long_header_value, 16, 0),
+        f("armor-many-headers", Runner::Dearmor, 100_000, gen_armor_many_headers, 16, 0),
+        f("armor-leading-garbage", Runner::Dearmor, 2_000_000, gen_armor_leading_garbage, 16, 0),
+        f("armor-leading-lines", Runner::Dearmor, 200_000, gen_armor_leading_lines, 16, 0),
+        f("armor-base64-no-linebreaks", Runner::Dearmor, 4_000_000, gen_armor_b64_garbage, 16, 0),
+        f("armor-base64-marker-packets", Runner::ArmoredMessage, 80_000, gen_armor_b64_markers, 16, PE),
+        f("armor-equals-run", Runner::Dearmor, 60_000, gen_armor_equals, 16, 0),
+        f("armor-newline-run", Runner::Dearmor, 4_000_000, gen_armor_newlines, 16, 0),
+        f("armor-space-run", Runner::Dearmor, 500_000, gen_armor_spaces, 16, 0),
+        f("armor-crlf-short-lines", Runner::ArmoredMessage, 400_000, gen_armor_crlf_short_lines, 16, PE),
+        f("armored-certificate-user-ids", Runner::ArmoredKey, 40_000, gen_armor_key_uids, 16, PE),
+    ]
+}
+
+fn run_family(r: Runner, data: &[u8], scratch: &mut [u8]) -> u64 {
+    match r {
+        Runner::Packets => PacketParser::new(data).filter(|p| p.is_ok()).count() as u64,
+        Runner::MessageDeep => match Message::from_bytes(data) {
+            Ok(m) => drive_message(m, scratch, usize::MAX, u64::MAX),
+            Err(_) => 0,
+        },
+        Runner::PublicKey => SignedPublicKey::from_bytes(data).is_ok() as u64,
+        Runner::DetachedSig => DetachedSignature::from_bytes(data).is_ok() as u64,
+        Runner::Cleartext => CleartextSignedMessage::from_armor(data).is_ok() as u64,
+        Runner::Dearmor => {
+            let mut d = Dearmor::new(BufReader::new(data));
+            let mut n = 0u64;
+            loop {
+                match d.read(scratch) {
+                    Ok(0) => break,
+                    Ok(k) => n += k as u64,
+                    Err(_) => break,
+                }
+            }
+            n
+        }
+        Runner::ArmoredKey => SignedPublicKey::from_armor_single(data).is_ok() as u64,
+        Runner::ArmoredMessage => match Message::from_armor(BufReader::new(data)) {
+            Ok((m, _)) => drive_message(m, scratch, usize::MAX, u64::MAX),
+            Err(_) => 0,
+        },
+    }
+}
+
+struct Point {
+    n: usize,
+    size: usize,
+    cpu: f64,
+    st: AllocStats,
+    out: u64,
+}
+
+enum PointErr {
+    Panicked(String),
+    /// the isolated child died with this signal
+    Crashed(i32, usize),
+    Harness(String),
+}
+
+fn measure_point(f: &Family, n: usize, scratch: &mut [u8]) -> Result<Point, PointErr> {
+    let data = (f.gen)(n);
+    if f.isolate {
+        let size = data.len();
+        let runner = f.runner;
+        let r = in_child(None, 120, || {
+            let t0 = thread_cpu_s();
+            let (out, st) = measure_alloc(|| run_family(runner, &data, scratch));
+            let cpu = thread_cpu_s() - t0;
+            let mut v = vec![];
+            v.extend_from_slice(&cpu.to_le_bytes());
+            v.extend_from_slice(&st.peak.to_le_bytes());
+            v.extend_from_slice(&st.count.to_le_bytes());
+            v.extend_from_slice(&st.max_single.to_le_bytes());
+            v.extend_from_slice(&out.to_le_bytes());
+            v
+        });
+        return match r {
+            ChildOutcome::Done(b) if b.len() == 40 => {
+                let u = |i: usize| u64::from_le_bytes(b[i * 8..i * 8 + 8].try_into().unwrap());
+                Ok(Point {
+                    n,
+                    size,
+                    cpu: f64::from_le_bytes(b[0..8].try_into().unwrap()),
+                    st: AllocStats { peak: u(1), count: u(2), max_single: u(3), ..Default::default() },
+                    out: u(4),
+                })
+            }
+            ChildOutcome::Done(_) => Err(PointErr::Harness("short child report".into())),
+            ChildOutcome::Panicked(l) => Err(PointErr::Panicked(l)),
+            ChildOutcome::Signal(sig) => Err(PointErr::Crashed(sig, size)),
+            ChildOutcome::Failed(e) => Err(PointErr::Harness(e)),
+        };
+    }
+    let t0 = thread_cpu_s();
+    let (r, st) = measure_alloc(|| crate::core::guard(|| run_family(f.runner, &data, scratch)));
+    let cpu = thread_cpu_s() - t0;
+    match r {
+        Ok(out) => Ok(Point { n, size: data.len(), cpu, st, out }),
+        Err(p) => Err(PointErr::Panicked(p.short_loc())),
+    }
+}
+
+/// least-squares slope of log(t) over log(size) for the four points
+fn slope(pts: &[Point], y: impl Fn(&Point) -> f64) -> f64 {
+    let xs: Vec<f64> = pts.iter().map(|p| (p.size as f64).ln()).collect();
+    let ys: Vec<f64> = pts.iter().map(|p| y(p).max(1e-9).ln()).collect();
+    let n = xs.len() as f64;
+    let mx = xs.iter().sum::<f64>() / n;
+    let my = ys.iter().sum::<f64>() / n;
+    let sxy: f64 = xs.iter().zip(&ys).map(|(x, y)| (x - mx) * (y - my)).sum();
+    let sxx: f64 = xs.iter().map(|x| (x - mx) * (x - mx)).sum();
+    if sxx == 0.0 {
+        0.0
+    } else {
+        sxy / sxx
+    }
+}
+
+const SLOPE_LIMIT: f64 = 1.7;
+const DECISIVE_S: f64 = 0.2;
+
+fn w2(ctx: &mut Ctx) {
+    let fams = families();
+    let mut scratch = vec![0u8; 64 * 1024];
+    // largest input the ladder may reach
+    let size_cap: usize = ctx.qt(48, 192) * MIB as usize;
+    // a single run is never allowed to be planned beyond this (projected from the previous one)
+    let time_cap = ctx.qt(6.0, 20.0);
+    for f in &fams {
+        if !ctx.mine() {
+            continue;
+        }
+        describe_case(&format!("W2 family {}", f.name));
+        ctx.seen("W2.families", f.name);
+        let mut n0 = f.n0;
+        let mut verdict: Option<(f64, Vec<Point>)> = None;
+        let mut fired = 0;
+        let mut rounds = 0;
+        let mut descents = 0;
+        let mut last: Option<Vec<Point>> = None;
+        'ladder: loop {
+            rounds += 1;
+            let mut pts: Vec<Point> = vec![];
+            for i in 0..4 {
+                let n = n0 << i;
+                // projected cost if the family were quadratic: stop before burning the budget
+                if let Some(p) = pts.last() {
+                    if p.cpu * 4.5 > time_cap {
+                        break;
+                    }
+                }
+                match measure_point(f, n, &mut scratch) {
+                    Ok(p) => {
+                        ctx.eval();
+                        dbg_line!("W2 {:44} n={:9} size={:10} cpu={:.4} peak={:10} count={:9} out={}", f.name, p.n, p.size, p.cpu, p.st.peak, p.st.count, p.out);
+                        pts.push(p);
+                    }
+                    Err(PointErr::Panicked(loc)) => {
+                        ctx.tally("W2.panicked(see C04)", 1);
+                        ctx.note(format!("W2: family {} panicked at {loc} (n={n}); not judged here", f.name));
+                        break 'ladder;
+                    }
+                    Err(PointErr::Crashed(sig, size)) => {
+                        dbg_line!("W2 {:44} n={:9} size={:10} CRASH signal {}", f.name, n, size, sig);
+                        if sig == libc::SIGSEGV || sig == libc::SIGBUS {
+                            ctx.violation(
+                                format!("C19/W2/stack-exhaustion/{}", f.name),
+                                format!("the process dies with signal {sig} (stack exhausted) on {n} repeated/nested elements, an input of {size} bytes, on the 8 MiB main-thread stack"),
+                                json!({"family": f.name, "n": n, "bytes": size, "signal": sig}),
+                            );
+                        } else {
+                            ctx.inconclusive(format!("W2: isolated run of {} ended with signal {sig} at n={n}", f.name));
+                        }
+                        last = Some(pts);
+                        break 'ladder;
+                    }
+                    Err(PointErr::Harness(e)) => {
+                        ctx.inconclusive(format!("W2: could not run {} in isolation: {e}", f.name));
+                        break 'ladder;
+                    }
+                }
+            }
+            if pts.len() < 3 {
+                // already too slow at the smallest size of this ladder: come down and try again
+                if descents < 5 && n0 >= 64 {
+                    descents += 1;
+                    n0 /= 8;
+                    continue;
+                }
+                ctx.inconclusive(format!("W2: family {} cannot be timed within the budget (n0={n0})", f.name));
+                last = Some(pts);
+                break;
+            }
+            let s = slope(&pts, |p| p.cpu);
+            let tmax = pts.last().unwrap().cpu;
+            let size_max = pts.last().unwrap().size;
+            dbg_line!("W2 {:44} slope={:.2} tmax={:.3}", f.name, s, tmax);
+            if tmax >= DECISIVE_S {
+                if s >= SLOPE_LIMIT {
+                    fired += 1;
+                    if fired >= 2 {
+                        verdict = Some((s, pts));
+                        break;
+                    }
+                    // independent repetition at the same sizes
+                    last = Some(pts);
+                    continue;
+                }
+                last = Some(pts);
+                break;
+            }
+            last = Some(pts);
+            // too fast to measure: scale up (bounded)
+            if size_max * 4 > size_cap || rounds > 10 {
+                ctx.tally("W2.too-fast-to-time-at-cap", 1);
+                break;
+            }
+            n0 *= 4;
+        }
+        // containers: one more isolated run far beyond the timing ladder (depth, not time, is the
+        // question here)
+        if f.isolate && !ctx.viol_by_sig.contains_key(&format!("C19/W2/stack-exhaustion/{}", f.name)) {
+            for deep in ctx.qt(vec![20_000usize], vec![20_000, 100_000]) {
+                match measure_point(f, deep, &mut scratch) {
+                    Ok(p) => {
+                        ctx.eval();
+                        dbg_line!("W2 {:44} deep n={} size={} cpu={:.3} peak={}", f.name, p.n, p.size, p.cpu, p.st.peak);
+                        ctx.seen("W2.deep-probe-survived", format!("{}@{}", f.name, deep));
+                    }
+                    Err(PointErr::Crashed(sig, size)) if sig == libc::SIGSEGV || sig == libc::SIGBUS => {
+                        ctx.eval();
+                        ctx.violation(
+                            format!("C19/W2/stack-exhaustion/{}", f.name),
+                            format!("the process dies with signal {sig} (stack exhausted) on {deep} nested elements, an input of {size} bytes, on the 8 MiB main-thread stack"),
+                            json!({"family": f.name, "n": deep, "bytes": size, "signal": sig}),
+                        );
+                        break;
+                    }
+                    Err(PointErr::Crashed(sig, _)) => {
+                        ctx.inconclusive(format!("W2: deep probe of {} ended with signal {sig} at n={deep} (resource limit of the isolated run)", f.name));
+                        break;
+                    }
+                    Err(PointErr::Panicked(loc)) => {
+                        ctx.note(format!("W2: deep probe of {} panicked at {loc} (see C04)", f.name));
+                        break;
+                    }
+                    Err(PointErr::Harness(e)) => {
+                        ctx.inconclusive(format!("W2: deep probe of {}: {e}", f.name));
+                        break;
+                    }
+                }
+            }
+        }
+        ctx.cover(&("W2", f.name));
+        if let Some((s, pts)) = verdict {
+            let series: Vec<_> = pts.iter().map(|p| json!({"n": p.n, "bytes": p.size, "cpu_s": (p.cpu * 1e4).round() / 1e4})).collect();
+            ctx.violation(
+                format!("C19/W2/superlinear-time/{}", f.name),
+                format!("thread CPU time grows with exponent {:.2} (limit {}) over three doublings, confirmed twice: {}", s, SLOPE_LIMIT, serde_json::to_string(&series).unwrap()),
+                json!({"family": f.name, "runner": format!("{:?}", f.runner), "series": series}),
+            );
+        }
+        // memory: judged on the last ladder measured
+        if let Some(pts) = last {
+            for p in &pts {
+                let bound = W1_C0 + f.mem_k * p.size as u64 + f.mem_per_elem * p.n as u64;
+                if p.st.peak > bound {
+                    ctx.violation(
+                        format!("C19/W2/peak-exceeds-input-bound/{}", f.name),
+                        format!("peak allocation {} bytes for an input of {} bytes ({} repeated elements); bound {} = 256 KiB + {}*|input| + {}*n", p.st.peak, p.size, p.n, bound, f.mem_k, f.mem_per_elem),
+                        json!({"family": f.name, "n": p.n, "bytes": p.size}),
+                    );
+                    break;
+                }
+            }
+            if let Some(p) = pts.last() {
+                ctx.seen("W2.peak/input(bucket)", format!("{}: {:.1}", f.name, p.st.peak as f64 / p.size as f64));
+                if ctx.samples.len() < 3 {
+                    ctx.sample(json!({"family": "W2", "name": f.name, "n": p.n, "bytes": p.size, "cpu_s": p.cpu, "peak": p.st.peak}));
+                }
+            }
+        }
+    }
+}
+
+// ------------------------------------------------------------------------------------------
+// W3: streaming — the working set must not depend on the size of the message
+
+/// Deterministic, mildly compressible source of `remaining` octets (64-symbol alphabet from a
+/// xorshift generator, never repeating); allocates nothing.
+struct PatternSource {
+    state: u64,
+    remaining: u64,
+}
+impl PatternSource {
+    fn new(total: u64, seed: u64) -> Self {
+        PatternSource { state: seed | 1, remaining: total }
+    }
+}
+impl Read for PatternSource {
+    fn read(&mut self, buf: &mut [u8]) -> std::io::Result<usize> {
+        if self.remaining == 0 || buf.is_empty() {
+            return Ok(0);
+        }
+        let n = (buf.len() as u64).min(self.remaining) as usize;
+        for chunk in buf[..n].chunks_mut(8) {
+            let mut x = self.state;
+            x ^= x << 13;
+            x ^= x >> 7;
+            x ^= x << 17;
+            self.state = x;
+            let b = (x & 0x3F3F_3F3F_3F3F_3F3F).wrapping_add(0x2020_2020_2020_2020).to_le_bytes();
+            chunk.copy_from_slice(&b[..chunk.len()]);
+        }
+        self.remaining -= n as u64;
+        Ok(n)
+    }
+}
+
+struct CountSink(u64);
+impl Write for CountSink {
+    fn write(&mut self, b: &[u8]) -> std::io::Result<usize> {
+        self.0 += b.len() as u64;
+        Ok(b.len())
+    }
+    fn flush(&mut self) -> std::io::Result<()> {
+        Ok(())
+    }
+}
+
+#[derive(Clone, Copy, Debug, PartialEq, Eq)]
+enum Enc {
+    Plain,
+    V1,
+    V2(AeadAlgorithm, ChunkSize),
+}
+#[derive(Clone, Copy, Debug)]
+struct StreamCfg {
+    comp: Option<CompressionAlgorithm>,
+    enc: Enc,
+    signed: bool,
+}
+impl StreamCfg {
+    fn name(&self) -> String {
+        format!(
+            "{}/{}{}",
+            match self.comp {
+                None => "none".to_string(),
+                Some(c) => format!("{c:?}"),
+            },
+            match self.enc {
+                Enc::Plain => "plain".to_string(),
+                Enc::V1 => "seipd1".to_string(),
+                Enc::V2(a, c) => format!("seipd2-{a:?}-{c:?}"),
+            },
+            if self.signed { "/signed" } else { "" }
+        )
+    }
+}
+
+const SK16: [u8; 16] = [0x5A; 16];
+
+/// Builds a message of `total` payload octets into `out`.
+fn build_stream<W: Write>(cfg: &StreamCfg, total: u64, signer: &SignedSecretKey, out: W) -> pgp::errors::Result<()> {
+    let rng = ChaCha8Rng::seed_from_u64(3);
+    let src = PatternSource::new(total, 11);
+    let b = MessageBuilder::from_reader("", src);
+    match cfg.enc {
+        Enc::Plain => {
+            let mut b = b;
+            if let Some(c) = cfg.comp {
+                b.compression(c);
+            }
+            if cfg.signed {
+                b.sign(&signer.primary_key, Password::empty(), HashAlgorithm::Sha256);
+            }
+            b.to_writer(rng, out)
+        }
+        Enc::V1 => {
+            let mut b = b.seipd_v1(ChaCha8Rng::seed_from_u64(4), SymmetricKeyAlgorithm::AES128);
+            b.set_session_key(SK16.to_vec().into())?;
+            b.encrypt_with_password(cheap_s2k(), &Password::from("pw"))?;
+            if let Some(c) = cfg.comp {
+                b.compression(c);
+            }
+            if cfg.signed {
+                b.sign(&signer.primary_key, Password::empty(), HashAlgorithm::Sha256);
+            }
+            b.to_writer(rng, out)
+        }
+        Enc::V2(aead, chunk) => {
+            let mut b = b.seipd_v2(ChaCha8Rng::seed_from_u64(4), SymmetricKeyAlgorithm::AES128, aead, chunk);
+            b.set_session_key(SK16.to_vec().into())?;
+            b.encrypt_with_password(ChaCha8Rng::seed_from_u64(5), cheap_s2k(), &Password::from("pw"))?;
+            if let Some(c) = cfg.comp {
+                b.compression(c);
+            }
+            if cfg.signed {
+                b.sign(&signer.primary_key, Password::empty(), HashAlgorithm::Sha256);
+            }
+            b.to_writer(rng, out)
+        }
+    }
+}
+
+/// Reads a message the streaming way; returns payload octets released or the error text.
+fn read_stream(cfg: &StreamCfg, data: &[u8], mode: Seipdv1ReadMode, scratch: &mut [u8]) -> Result<u64, String> {
+    let mut m = Message::from_bytes(BufReader::new(data)).map_err(|e| format!("parse: {e}"))?;
+    if m.is_encrypted() {
+        let key = match cfg.enc {
+            Enc::V2(..) => PlainSessionKey::V6 { key: SK16.to_vec().into() },
+            _ => PlainSessionKey::V3_4 { sym_alg: SymmetricKeyAlgorithm::AES128, key: SK16.to_vec().into() },
+        };
+        let ring = TheRing {
+            session_keys: vec![key],
+            decrypt_options: DecryptionOptions::new().set_seipdv1_read_mode(mode),
+            ..Default::default()
+        };
+        m = m.decrypt_the_ring(ring, true).map_err(|e| format!("decrypt: {e}"))?.0;
+    }
+    let mut guard = 0;
+    while m.is_compressed() && guard < 4 {
+        m = m.decompress().map_err(|e| format!("decompress: {e}"))?;
+        guard += 1;
+    }
+    let mut total = 0u64;
+    loop {
+        match m.read(scratch) {
+            Ok(0) => break,
+            Ok(n) => total += n as u64,
+            Err(e) => return Err(format!("read after {total}: {e}")),
+        }
+    }
+    Ok(total)
+}
+
+/// bzip2 runs at ~10 MB/s: its largest size is 64 MiB so that a case stays far below the watchdog
+fn slow_cfg(cfg: &StreamCfg) -> bool {
+    cfg.comp == Some(CompressionAlgorithm::BZip2)
+}
+
+const STREAM_ABS_CAP: u64 = 32 * MIB;
+const STREAM_GROWTH: u64 = MIB;
+
+fn w3(ctx: &mut Ctx) {
+    let signer = zoo::key(&zoo::Spec::simple(false, zoo::Alg::Ed25519Legacy, None), 0);
+    let mut scratch = vec![0u8; 64 * 1024];
+    let mut cfgs: Vec<StreamCfg> = vec![];
+    for comp in [None, Some(CompressionAlgorithm::ZIP)] {
+        for enc in [Enc::Plain, Enc::V2(AeadAlgorithm::Ocb, ChunkSize::default()), Enc::V1] {
+            cfgs.push(StreamCfg { comp, enc, signed: false });
+        }
+    }
+    cfgs.push(StreamCfg { comp: None, enc: Enc::Plain, signed: true });
+    if !ctx.quick() {
+        cfgs.push(StreamCfg { comp: Some(CompressionAlgorithm::ZLIB), enc: Enc::V2(AeadAlgorithm::Gcm, ChunkSize::C64KiB), signed: true });
+        cfgs.push(StreamCfg { comp: Some(CompressionAlgorithm::BZip2), enc: Enc::V1, signed: false });
+        cfgs.push(StreamCfg { comp: None, enc: Enc::V2(AeadAlgorithm::Eax, ChunkSize::C4MiB), signed: false });
+        cfgs.push(StreamCfg { comp: Some(CompressionAlgorithm::ZIP), enc: Enc::V2(AeadAlgorithm::Ocb, ChunkSize::C64B), signed: true });
+    }
+    let sizes: Vec<u64> = if ctx.quick() { vec![16 * MIB, 64 * MIB] } else { vec![16 * MIB, 64 * MIB, 256 * MIB] };
+
+    for cfg in &cfgs {
+        // documented fixed buffers of the configuration (not dependent on message size)
+        let fixed: u64 = match cfg.enc {
+            Enc::V2(_, c) => 3 * (c.as_byte_size() as u64 + 64),
+            _ => 0,
+        } + if cfg.comp == Some(CompressionAlgorithm::BZip2) { BZIP2_ALLOW } else { 0 };
+
+        // (a) producer
+        if ctx.mine() {
+            describe_case(&format!("W3 builder {}", cfg.name()));
+            let mut peaks: Vec<(u64, u64, u64)> = vec![];
+            let mut failed = false;
+            for &n in &sizes {
+                if slow_cfg(cfg) && n > 64 * MIB {
+                    continue;
+                }
+                describe_case(&format!("W3 builder {} payload {}", cfg.name(), n));
+                let (r, st) = measure_alloc(|| {
+                    crate::core::guard(|| {
+                        let mut sink = CountSink(0);
+                        build_stream(cfg, n, &signer, &mut sink).map(|_| sink.0)
+                    })
+                });
+                ctx.eval();
+                match r {
+                    Ok(Ok(written)) if written >= n / 1024 => peaks.push((n, st.peak, written)),
+                    Ok(Ok(w)) => {
+                        ctx.inconclusive(format!("W3 builder {}: wrote only {w} octets for {n}", cfg.name()));
+                        failed = true;
+                    }
+                    Ok(Err(e)) => {
+                        ctx.inconclusive(format!("W3 builder {}: {e}", cfg.name()));
+                        failed = true;
+                    }
+                    Err(p) => {
+                        ctx.note(format!("W3 builder {} panicked at {} (see C04/C09)", cfg.name(), p.short_loc()));
+                        failed = true;
+                    }
+                }
+                dbg_line!("W3 build {:40} n={:10} peak={:10} total={} count={}", cfg.name(), n, st.peak, st.total, st.count);
+                if failed {
+                    break;
+                }
+            }
+            if !failed {
+                judge_stream(ctx, "builder", cfg, &peaks, fixed);
+            }
+            ctx.cover(&("W3b", cfg.name()));
+            ctx.seen("W3.builder", cfg.name());
+        }
+
+        // (b) consumer: message prebuilt outside the measured region
+        if ctx.mine() {
+            describe_case(&format!("W3 reader {}", cfg.name()));
+            let mut peaks: Vec<(u64, u64, u64)> = vec![];
+            let mut failed = false;
+            for &n in &sizes {
+                if slow_cfg(cfg) && n > 64 * MIB {
+                    continue;
+                }
+                describe_case(&format!("W3 reader {} payload {}", cfg.name(), n));
+                let mut data: Vec<u8> = Vec::new();
+                if let Err(e) = build_stream(cfg, n, &signer, &mut data) {
+                    ctx.inconclusive(format!("W3 reader {}: cannot build input: {e}", cfg.name()));
+                    failed = true;
+                    break;
+                }
+                let (r, st) = measure_alloc(|| crate::core::guard(|| read_stream(cfg, &data, Seipdv1ReadMode::Streaming, &mut scratch)));
+                ctx.eval();
+                dbg_line!("W3 read  {:40} n={:10} msg={:10} peak={:10} total={} count={} -> {:?}", cfg.name(), n, data.len(), st.peak, st.total, st.count, r.as_ref().ok());
+                match r {
+                    Ok(Ok(got)) if got == n => peaks.push((n, st.peak, data.len() as u64)),
+                    Ok(Ok(got)) => {
+                        ctx.inconclusive(format!("W3 reader {}: released {got} of {n} octets (content is C01/C09's business)", cfg.name()));
+                        failed = true;
+                    }
+                    Ok(Err(e)) => {
+                        ctx.inconclusive(format!("W3 reader {}: {e}", cfg.name()));
+                        failed = true;
+                    }
+                    Err(p) => {
+                        ctx.note(format!("W3 reader {} panicked at {} (see C04/C09)", cfg.name(), p.short_loc()));
+                        failed = true;
+                    }
+                }
+                if failed {
+                    break;
+                }
+            }
+            if !failed {
+                judge_stream(ctx, "reader", cfg, &peaks, fixed);
+            }
+            ctx.cover(&("W3r", cfg.name()));
+            ctx.seen("W3.reader", cfg.name());
+        }
+    }
+
+    // (c) SEIPDv1 in the default CheckFirst mode: whole-message buffering capped by the limit
+    let limits: Vec<u64> = if ctx.quick() { vec![MIB, 4 * MIB] } else { vec![MIB, 4 * MIB, 32 * MIB] };
+    for comp in [None, Some(CompressionAlgorithm::ZIP)] {
+        for &l in &limits {
+            if !ctx.mine() {
+                continue;
+            }
+            let cfg = StreamCfg { comp, enc: Enc::V1, signed: false };
+            describe_case(&format!("W3 checkfirst {} L={}", cfg.name(), l));
+            // payload sizes relative to L; with compression the *ciphertext* size is what counts
+            for (label, factor_num, factor_den) in [("quarter", 1u64, 4u64), ("below", 9, 10), ("above", 11, 10), ("4x", 4, 1), ("16x", 16, 1)] {
+                if l > 4 * MIB && factor_num >= 16 {
+                    continue;
+                }
+                describe_case(&format!("W3 checkfirst {} L={} message {}", cfg.name(), l, label));
+                let target = l * factor_num / factor_den;
+                // build with a payload that gives a ciphertext near the target
+                let mut payload = target;
+                let mut data: Vec<u8> = vec![];
+                for _ in 0..6 {
+                    data.clear();
+                    if build_stream(&cfg, payload, &signer, &mut data).is_err() {
+                        break;
+                    }
+                    let have = data.len() as u64;
+                    if comp.is_none() || (have as f64 / target as f64 - 1.0).abs() < 0.03 {
+                        break;
+                    }
+                    payload = (payload as f64 * target as f64 / have.max(1) as f64) as u64;
+                }
+                if data.is_empty() {
+                    ctx.inconclusive("W3 checkfirst: cannot build input");
+                    continue;
+                }
+                let clen = data.len() as u64;
+                let mode = Seipdv1ReadMode::CheckFirst { max_message_size: l as usize };
+                let (r, st) = measure_alloc(|| crate::core::guard(|| read_stream(&cfg, &data, mode, &mut scratch)));
+                ctx.eval();
+                dbg_line!("W3 checkfirst {:20} L={:9} {:8} ciphertext={:10} peak={:10} -> {:?}", cfg.name(), l, label, clen, st.peak, r.as_ref().map(|x| x.as_ref().map_err(|e| e.chars().take(60).collect::<String>())).ok());
+                let Ok(r) = r else {
+                    ctx.note("W3 checkfirst panicked (see C04)");
+                    continue;
+                };
+                let replay = json!({"config": cfg.name(), "limit": l, "ciphertext_bytes": clen, "payload": payload});
+                let slack = 4096; // SKESK, headers, prefix, MDC
+                if clen > l + slack && r.is_ok() {
+                    ctx.violation(
+                        format!("C19/W3/checkfirst-limit-not-enforced/{}", cfg.name()),
+                        format!("SEIPDv1 CheckFirst with max_message_size {l} decrypted a message of {clen} ciphertext octets"),
+                        replay.clone(),
+                    );
+                }
+                if clen + slack < l && r.is_err() {
+                    // refusing a message below the limit is not a resource violation; recorded only
+                    ctx.note(format!("W3 checkfirst: message of {clen} octets below limit {l} was refused: {:?}", r.as_ref().err()));
+                    ctx.tally("W3.checkfirst.below-limit-refused", 1);
+                }
+                let bound = 2 * l + W1_C0 + if comp.is_some() { 256 * KIB } else { 0 };
+                if st.peak > bound {
+                    ctx.violation(
+                        format!("C19/W3/checkfirst-peak-exceeds-2L/{}", cfg.name()),
+                        format!("peak allocation {} with max_message_size {l} (bound 2*L + 256 KiB = {bound}), ciphertext {clen} octets, result ok={}", st.peak, r.is_ok()),
+                        replay.clone(),
+                    );
+                }
+                ctx.tally(if r.is_ok() { "W3.checkfirst.accepted" } else { "W3.checkfirst.refused" }, 1);
+                ctx.cover(&("W3c", cfg.name(), l, label));
+            }
+            ctx.seen("W3.checkfirst", format!("{}@{}", cfg.name(), l));
+        }
+    }
+}
+
+fn judge_stream(ctx: &mut Ctx, side: &str, cfg: &StreamCfg, peaks: &[(u64, u64, u64)], fixed: u64) {
+    let series: Vec<_> = peaks.iter().map(|(n, p, w)| json!({"payload": n, "peak": p, "message_bytes": w})).collect();
+    let base = peaks[0].1;
+    for (n, p, _) in &peaks[1..] {
+        if *p > base + STREAM_GROWTH {
+            ctx.violation(
+                format!("C19/W3/{side}-peak-grows-with-message/{}", cfg.name()),
+                format!("peak allocation {p} for {n} payload octets vs {base} for {} (allowed growth 1 MiB): {}", peaks[0].0, serde_json::to_string(&series).unwrap()),
+                json!({"side": side, "config": cfg.name(), "series": series}),
+            );
+            break;
+        }
+    }
+    let worst = peaks.iter().map(|x| x.1).max().unwrap_or(0);
+    if worst > STREAM_ABS_CAP + fixed {
+        ctx.violation(
+            format!("C19/W3/{side}-peak-absolute/{}", cfg.name()),
+            format!("peak allocation {worst} exceeds 32 MiB + documented buffers {fixed}: {}", serde_json::to_string(&series).unwrap()),
+            json!({"side": side, "config": cfg.name(), "series": series}),
+        );
+    }
+    ctx.seen(&format!("W3.{side}.peak(bucket)"), format!("{}: <= {} KiB", cfg.name(), (worst.div_ceil(KIB)).next_power_of_two()));
+    if ctx.samples.len() < 4 {
+        ctx.sample(json!({"family": "W3", "side": side, "config": cfg.name(), "series": series}));
+    }
+}
+
+// ------------------------------------------------------------------------------------------
+// W4: key-derivation ceilings
+
+#[derive(Clone, Copy, Debug, PartialEq, Eq)]
+enum A2Class {
+    OverCeiling,
+    Malformed,
+    ValidCheap,
+    ValidExpensive,
+}
+
+/// RFC 9580 3.7.1.4 + the ceiling documented in `types/s2k.rs` (t <= 32, p <= 32, m <= 2^21 KiB)
+fn a2_class(t: u8, p: u8, m: u8) -> A2Class {
+    if t > 32 || p > 32 || (m > 21 && m <= 31) {
+        return A2Class::OverCeiling;
+    }
+    if t == 0 || p == 0 || m > 31 || (1u64 << m) < 8 * p as u64 {
+        return A2Class::Malformed;
+    }
+    if m <= 10 && t <= 2 {
+        A2Class::ValidCheap
+    } else {
+        A2Class::ValidExpensive
+    }
+}
+
+/// iterated+salted S2K written from RFC 9580 3.7.1.3, streaming (no big buffers)
+fn ref_iterated<D: digest::Digest>(salt: &[u8; 8], pw: &[u8], code: u8, key_len: usize) -> Vec<u8> {
+    let count = (16usize + (code as usize & 15)) << ((code as usize >> 4) + 6);
+    let mut unit = salt.to_vec();
+    unit.extend_from_slice(pw);
+    let total = count.max(unit.len());
+    let hl = <D as digest::Digest>::output_size();
+    let mut out = vec![];
+    let mut round = 0usize;
+    while out.len() < key_len {
+        let mut h = D::new();
+        h.update(vec![0u8; round]);
+        let mut left = total;
+        while left >= unit.len() {
+            h.update(&unit);
+            left -= unit.len();
+        }
+        h.update(&unit[..left]);
+        out.extend_from_slice(&h.finalize());
+        round += 1;
+        let _ = hl;
+    }
+    out.truncate(key_len);
+    out
+}
+
+fn skesk4_body(sym: u8, s2k: &[u8]) -> Vec<u8> {
+    let mut b = vec![4u8, sym];
+    b.extend_from_slice(s2k);
+    b
+}
+fn skesk6_body(sym: u8, aead: u8, s2k: &[u8]) -> Vec<u8> {
+    // version, count of following 5 fields, sym, aead, s2k len, s2k, iv(15 for OCB), esk+tag
+    let ivlen = 15usize;
+    let mut b = vec![6u8, (3 + s2k.len() + ivlen) as u8, sym, aead, s2k.len() as u8];
+    b.extend_from_slice(s2k);
+    b.extend(vec![0x21u8; ivlen]);
+    b.extend(vec![0x43u8; 16 + 16]);
+    b
+}
+fn secret_key_aead(pubpart: &[u8], v6: bool, s2k: &[u8]) -> Vec<u8> {
+    let mut b = pubpart.to_vec();
+    b.push(253);
+    if v6 {
+        b.push((3 + s2k.len() + 15) as u8);
+    }
+    b.push(7);
+    b.push(2);
+    if v6 {
+        b.push(s2k.len() as u8);
+    }
+    b.extend_from_slice(s2k);
+    b.extend(vec![0x21u8; 15]);
+    b.extend(vec![0x43u8; 32 + 16]);
+    b
+}
+
+/// first packet of the given kind in a byte string
+fn first_packet(data: &[u8]) -> Option<Packet> {
+    PacketParser::new(data).next().and_then(|p| p.ok())
+}
+
+/// What one derivation did: status (0 = Err, 1 = Ok), peak, cpu seconds, first 8 key octets
+#[derive(Clone, Copy, Default)]
+struct KdfObs {
+    ok: bool,
+    peak: u64,
+    cpu: f64,
+    key8: [u8; 8],
+}
+impl KdfObs {
+    fn to_bytes(self) -> Vec<u8> {
+        let mut v = vec![self.ok as u8];
+        v.extend_from_slice(&self.peak.to_le_bytes());
+        v.extend_from_slice(&self.cpu.to_le_bytes());
+        v.extend_from_slice(&self.key8);
+        v
+    }
+    const LEN: usize = 25;
+    fn from_bytes(b: &[u8]) -> Self {
+        let mut key8 = [0u8; 8];
+        key8.copy_from_slice(&b[17..25]);
+        KdfObs {
+            ok: b[0] == 1,
+            peak: u64::from_le_bytes(b[1..9].try_into().unwrap()),
+            cpu: f64::from_le_bytes(b[9..17].try_into().unwrap()),
+            key8,
+        }
+    }
+}
+
+fn observe_kdf(f: impl FnOnce() -> Option<Vec<u8>>) -> KdfObs {
+    let t0 = thread_cpu_s();
+    let (r, st) = measure_alloc(f);
+    let cpu = thread_cpu_s() - t0;
+    let mut key8 = [0u8; 8];
+    if let Some(k) = &r {
+        let n = k.len().min(8);
+        key8[..n].copy_from_slice(&k[..n]);
+    }
+    KdfObs { ok: r.is_some(), peak: st.peak, cpu, key8 }
+}
+
+#[derive(Clone, Copy, Debug, PartialEq, Eq)]
+enum KdfPath {
+    Direct,
+    SkeskV4,
+    SkeskV6,
+    SecretKeyV4,
+    SecretKeyV6,
+}
+
+fn argon2_octets(t: u8, p: u8, m: u8) -> Vec<u8> {
+    let mut s = vec![4u8];
+    s.extend_from_slice(&[0x77; 16]);
+    s.extend_from_slice(&[t, p, m]);
+    s
+}
+
+/// Runs a derivation with the given S2K octets along one API path. Some(key) on success.
+fn kdf_via(path: KdfPath, s2k_octets: &[u8], key_len: usize) -> Option<Vec<u8>> {
+    let pw = Password::from("password");
+    match path {
+        KdfPath::Direct => {
+            let s2k = StringToKey::try_from_reader(s2k_octets).ok()?;
+            s2k.derive_key(b"password", key_len).ok().map(|k| k.as_ref().to_vec())
+        }
+        KdfPath::SkeskV4 => {
+            let data = pkt(3, &skesk4_body(if key_len == 16 { 7 } else { 9 }, s2k_octets));
+            match first_packet(&data)? {
+                Packet::SymKeyEncryptedSessionKey(sk) => match &pgp::composed::decrypt_session_key_with_password(&sk, &pw).ok()? {
+                    PlainSessionKey::V3_4 { key, .. } => Some(key.as_ref().to_vec()),
+                    _ => Some(vec![]),
+                },
+                _ => None,
+            }
+        }
+        KdfPath::SkeskV6 => {
+            let data = pkt(3, &skesk6_body(7, 2, s2k_octets));
+            match first_packet(&data)? {
+                Packet::SymKeyEncryptedSessionKey(sk) => pgp::composed::decrypt_session_key_with_password(&sk, &pw).ok().map(|_| vec![]),
+                _ => None,
+            }
+        }
+        KdfPath::SecretKeyV4 | KdfPath::SecretKeyV6 => {
+            let v6 = path == KdfPath::SecretKeyV6;
+            let pubpart = if v6 { v6_pubkey_ed25519() } else { v4_pubkey_ed25519_legacy() };
+            let data = pkt(5, &secret_key_aead(&pubpart, v6, s2k_octets));
+            match first_packet(&data)? {
+                Packet::SecretKey(k) => match k.unlock(&pw, |_, _| Ok(())) {
+                    Ok(Ok(())) => Some(vec![]),
+                    _ => None,
+                },
+                _ => None,
+            }
+        }
+    }
+}
+
+fn w4(ctx: &mut Ctx) {
+    // ---- Argon2 grid through StringToKey::derive_key, one isolated child per (t, p)
+    let ts: [u8; 8] = [0, 1, 2, 3, 32, 33, 64, 255];
+    let ps: [u8; 9] = [0, 1, 2, 4, 16, 32, 33, 64, 255];
+    for &t in &ts {
+        for &p in &ps {
+            if !ctx.mine() {
+                continue;
+            }
+            describe_case(&format!("W4 argon2 grid t={t} p={p}"));
+            let plan: Vec<(u8, A2Class)> = (0u16..=255).map(|m| (m as u8, a2_class(t, p, m as u8))).collect();
+            let plan2 = plan.clone();
+            let r = in_child(Some(1 << 30), 60, move || {
+                let mut out = vec![];
+                for (m, class) in &plan2 {
+                    if *class == A2Class::ValidExpensive {
+                        continue;
+                    }
+                    let o = observe_kdf(|| kdf_via(KdfPath::Direct, &argon2_octets(t, p, *m), 32));
+                    out.extend(o.to_bytes());
+                }
+                out
+            });
+            let executed: Vec<(u8, A2Class)> = plan.iter().copied().filter(|(_, c)| *c != A2Class::ValidExpensive).collect();
+            ctx.tally("W4.argon2.skipped-valid-expensive", (plan.len() - executed.len()) as u64);
+            let bytes = match r {
+                ChildOutcome::Done(b) => b,
+                ChildOutcome::Panicked(loc) => {
+                    ctx.note(format!("W4: derive_key panicked at {loc} for t={t} p={p} (see C04)"));
+                    continue;
+                }
+                ChildOutcome::Signal(sig) => {
+                    // which parameter set killed it is not known from here: re-run one by one
+                    judge_argon2_one_by_one(ctx, t, p, &executed, sig);
+                    continue;
+                }
+                ChildOutcome::Failed(e) => {
+                    ctx.inconclusive(format!("W4: cannot isolate argon2 run: {e}"));
+                    continue;
+                }
+            };
+            if bytes.len() != executed.len() * KdfObs::LEN {
+                ctx.inconclusive("W4: short report from isolated argon2 run");
+                continue;
+            }
+            for (i, (m, class)) in executed.iter().enumerate() {
+                let o = KdfObs::from_bytes(&bytes[i * KdfObs::LEN..(i + 1) * KdfObs::LEN]);
+                ctx.eval();
+                judge_argon2(ctx, KdfPath::Direct, t, p, *m, *class, &o);
+                ctx.cover(&("W4a", t, p, *m));
+            }
+            ctx.seen("W4.argon2.(t,p)", format!("{t},{p}"));
+        }
+    }
+    // ---- the same octets through packet parsing paths (SKESK v4/v6, secret key packets)
+    let samples: [(u8, u8, u8); 14] = [
+        (1, 4, 22), (1, 4, 31), (1, 1, 22), (3, 4, 25), (33, 4, 10), (255, 1, 3), (3, 33, 10), (1, 255, 11),
+        (1, 1, 32), (1, 1, 255), (0, 1, 10), (1, 0, 10), (1, 4, 4), (1, 1, 5),
+    ];
+    for path in [KdfPath::SkeskV4, KdfPath::SkeskV6, KdfPath::SecretKeyV4, KdfPath::SecretKeyV6] {
+        if !ctx.mine() {
+            continue;
+        }
+        describe_case(&format!("W4 argon2 via {path:?}"));
+        for (t, p, m) in samples {
+            let class = a2_class(t, p, m);
+            if class == A2Class::ValidExpensive {
+                continue;
+            }
+            let r = in_child(Some(1 << 30), 30, move || observe_kdf(|| kdf_via(path, &argon2_octets(t, p, m), 16)).to_bytes());
+            ctx.eval();
+            match r {
+                ChildOutcome::Done(b) if b.len() == KdfObs::LEN => {
+                    let o = KdfObs::from_bytes(&b);
+                    // on these paths a valid cheap set ends in Err too (garbage ciphertext): only
+                    // refusals are judged
+                    if class != A2Class::ValidCheap {
+                        judge_argon2(ctx, path, t, p, m, class, &o);
+                    }
+                }
+                ChildOutcome::Signal(sig) => argon2_killed(ctx, path, t, p, m, class, sig),
+                ChildOutcome::Panicked(loc) => ctx.note(format!("W4: {path:?} panicked at {loc} (see C04)")),
+                _ => ctx.inconclusive("W4: cannot isolate argon2 path run"),
+            }
+            ctx.cover(&("W4p", format!("{path:?}"), t, p, m));
+        }
+        ctx.seen("W4.argon2.paths", format!("{path:?}"));
+    }
+
+    // ---- iterated and salted S2K: all 256 coded counts
+    let salt = [0xA5u8; 8];
+    for group in 0..16u8 {
+        if !ctx.mine() {
+            continue;
+        }
+        describe_case(&format!("W4 iterated s2k codes {}..{}", group as u32 * 16, group as u32 * 16 + 15));
+        for lo in 0..16u8 {
+            let code = group * 16 + lo;
+            let count = rfc::sym::s2k_decode_count(code);
+            // (a) direct, SHA-256, 32 octets, password length varied (one longer than small counts)
+            let pw: Vec<u8> = match code % 3 {
+                0 => b"password".to_vec(),
+                1 => vec![b'x'; 61],
+                _ => vec![b'y'; 1500],
+            };
+            let mut oct = vec![3u8, 8];
+            oct.extend_from_slice(&salt);
+            oct.push(code);
+            let s2k = StringToKey::try_from_reader(&oct[..]).expect("s2k parse");
+            let t0 = thread_cpu_s();
+            let (r, st) = measure_alloc(|| s2k.derive_key(&pw, 32));
+            let cpu = thread_cpu_s() - t0;
+            ctx.eval();
+            let want = ref_iterated::<sha2::Sha256>(&salt, &pw, code, 32);
+            let replay = json!({"code": code, "decoded_count": count, "password_len": pw.len(), "hash": "SHA256", "path": "derive_key"});
+            match r {
+                Ok(k) => {
+                    if k.as_ref() != &want[..] {
+                        ctx.violation("C19/W4/iterated-s2k-octet-count/derive_key", format!("derive_key with coded count {code} (= {count} octets) does not equal the RFC 9580 3.7.1.3 result over exactly max(count, |salt+pw|) octets"), replay.clone());
+                    }
+                }
+                Err(e) => ctx.violation("C19/W4/iterated-s2k-refused", format!("derive_key refused coded count {code}: {e}"), replay.clone()),
+            }
+            if st.peak > 64 * KIB {
+                ctx.violation("C19/W4/iterated-s2k-allocates", format!("derive_key allocated {} octets (peak) for coded count {code}", st.peak), replay.clone());
+            }
+            // generous absolute sanity: 65 MB of SHA-256 can not take 20 s
+            if cpu > 20.0 {
+                ctx.violation("C19/W4/iterated-s2k-slow", format!("derive_key took {cpu:.1} s CPU for coded count {code} ({count} octets)"), replay.clone());
+            }
+            // (b) through a v4 SKESK packet, SHA-1, AES-128
+            let mut oct = vec![3u8, 2];
+            oct.extend_from_slice(&salt);
+            oct.push(code);
+            let got = kdf_via(KdfPath::SkeskV4, &oct, 16);
+            ctx.eval();
+            let want = ref_iterated::<sha1::Sha1>(&salt, b"password", code, 16);
+            if got.as_deref() != Some(&want[..]) {
+                ctx.violation(
+                    "C19/W4/iterated-s2k-octet-count/skesk-v4",
+                    format!("session key derived from a v4 SKESK with coded count {code} differs from the RFC result (got {:?})", got.map(|g| hex::encode(g))),
+                    json!({"code": code, "hash": "SHA1", "path": "skesk-v4"}),
+                );
+            }
+            ctx.cover(&("W4i", code));
+            ctx.seen("W4.iterated.codes", format!("{code}"));
+        }
+    }
+    // secret-key path for a few codes (finishes; garbage ciphertext => Err)
+    if ctx.mine() {
+        describe_case("W4 iterated s2k via secret key");
+        for code in [0u8, 96, 208, 255] {
+            let mut oct = vec![3u8, 8];
+            oct.extend_from_slice(&salt);
+            oct.push(code);
+            for path in [KdfPath::SecretKeyV4, KdfPath::SecretKeyV6, KdfPath::SkeskV6] {
+                let t0 = thread_cpu_s();
+                let (_, st) = measure_alloc(|| crate::core::guard(|| kdf_via(path, &oct, 16)));
+                let cpu = thread_cpu_s() - t0;
+                ctx.eval();
+                if st.peak > W1_C0 || cpu > 20.0 {
+                    ctx.violation(
+                        "C19/W4/iterated-s2k-allocates",
+                        format!("{path:?} with coded count {code}: peak {} octets, {cpu:.2} s", st.peak),
+                        json!({"code": code, "path": format!("{path:?}")}),
+                    );
+                }
+                ctx.cover(&("W4is", code, format!("{path:?}")));
+            }
+        }
+    }
+    // time roughly linear in the decoded count (RIPEMD-160: no hardware acceleration, so the
+    // largest count takes long enough to decide)
+    if ctx.mine() {
+        describe_case("W4 iterated s2k time scaling");
+        let mut fired = 0;
+        for _rep in 0..2 {
+            let mut pts: Vec<Point> = vec![];
+            for code in [207u8, 223, 239, 255] {
+                let mut oct = vec![3u8, 3];
+                oct.extend_from_slice(&salt);
+                oct.push(code);
+                let s2k = StringToKey::try_from_reader(&oct[..]).expect("s2k parse");
+                let t0 = thread_cpu_s();
+                let (r, st) = measure_alloc(|| s2k.derive_key(b"password", 32));
+                let cpu = thread_cpu_s() - t0;
+                ctx.eval();
+                if r.is_err() {
+                    ctx.inconclusive("W4: RIPEMD-160 iterated S2K refused");
+                }
+                pts.push(Point { n: code as usize, size: rfc::sym::s2k_decode_count(code), cpu, st, out: 0 });
+            }
+            let s = slope(&pts, |p| p.cpu);
+            let tmax = pts.last().unwrap().cpu;
+            dbg_line!("W4 iterated time slope {:.2} tmax {:.3}", s, tmax);
+            ctx.seen("W4.iterated.time-slope(bucket)", format!("{:.1}", s));
+            if tmax >= DECISIVE_S && s >= SLOPE_LIMIT {
+                fired += 1;
+            } else {
+                break;
+            }
+        }
+        if fired >= 2 {
+            ctx.violation("C19/W4/iterated-s2k-superlinear", "CPU time of iterated S2K grows super-linearly in the decoded count (exponent >= 1.7 twice)", json!({}));
+        }
+        ctx.cover(&"W4-iter-time");
+    }
+}
+
+fn argon2_killed(ctx: &mut Ctx, path: KdfPath, t: u8, p: u8, m: u8, class: A2Class, sig: i32) {
+    let replay = json!({"t": t, "p": p, "m_enc": m, "path": format!("{path:?}"), "signal": sig});
+    match class {
+        A2Class::OverCeiling | A2Class::Malformed => ctx.violation(
+            format!("C19/W4/argon2-over-ceiling-executed/{path:?}"),
+            format!("Argon2 S2K with t={t} p={p} encoded_m={m} ({class:?}) was not refused: the isolated process (address space limited to +1 GiB, CPU limited) died with signal {sig} while deriving"),
+            replay,
+        ),
+        _ => ctx.inconclusive(format!("W4: isolated argon2 run died with signal {sig} on a valid cheap parameter set t={t} p={p} m={m}")),
+    }
+}
+
+fn judge_argon2_one_by_one(ctx: &mut Ctx, t: u8, p: u8, executed: &[(u8, A2Class)], first_sig: i32) {
+    let mut found = false;
+    for (m, class) in executed {
+        let (m, class) = (*m, *class);
+        let r = in_child(Some(1 << 30), 20, move || observe_kdf(|| kdf_via(KdfPath::Direct, &argon2_octets(t, p, m), 32)).to_bytes());
+        ctx.eval();
+        match r {
+            ChildOutcome::Done(b) if b.len() == KdfObs::LEN => judge_argon2(ctx, KdfPath::Direct, t, p, m, class, &KdfObs::from_bytes(&b)),
+            ChildOutcome::Signal(sig) => {
+                found = true;
+                argon2_killed(ctx, KdfPath::Direct, t, p, m, class, sig);
+            }
+            _ => {}
+        }
+    }
+    if !found {
+        ctx.inconclusive(format!("W4: argon2 grid child for t={t} p={p} died with signal {first_sig} but no single parameter set reproduces it"));
+    }
+}
+
+fn judge_argon2(ctx: &mut Ctx, path: KdfPath, t: u8, p: u8, m: u8, class: A2Class, o: &KdfObs) {
+    let replay = || json!({"t": t, "p": p, "m_enc": m, "path": format!("{path:?}"), "class": format!("{class:?}")});
+    match class {
+        A2Class::OverCeiling | A2Class::Malformed => {
+            if o.ok {
+                let what = if class == A2Class::OverCeiling { "over-ceiling" } else { "malformed" };
+                ctx.violation(
+                    format!("C19/W4/argon2-{what}-accepted/{path:?}"),
+                    format!("Argon2 S2K with t={t} p={p} encoded_m={m} was executed and returned a key (documented ceiling: t<=32, p<=32, m<=2^21 KiB; RFC: m in 3+ceil(log2 p)..31, t>=1, p>=1)"),
+                    replay(),
+                );
+            } else if o.peak >= MIB || o.cpu >= 0.05 {
+                ctx.violation(
+                    format!("C19/W4/argon2-refusal-not-cheap/{path:?}"),
+                    format!("refusing t={t} p={p} encoded_m={m} cost {} octets peak and {:.3} s CPU", o.peak, o.cpu),
+                    replay(),
+                );
+            }
+            ctx.tally("W4.argon2.refused", (!o.ok) as u64);
+        }
+        A2Class::ValidCheap => {
+            if o.ok {
+                let want = rfc::sym::RefS2k::Argon2 { salt: [0x77; 16], t, p, m }.derive(b"password", 32);
+                if let Some(w) = want {
+                    if w[..8] != o.key8 {
+                        ctx.note(format!("W4: argon2 t={t} p={p} m={m} output differs from the reference (C12's business)"));
+                    }
+                }
+                let bound = (1u64 << m) * KIB + W1_C0;
+                if o.peak > bound {
+                    ctx.violation(
+                        format!("C19/W4/argon2-memory-exceeds-parameter/{path:?}"),
+                        format!("t={t} p={p} encoded_m={m}: peak {} octets exceeds m KiB + 256 KiB = {bound}", o.peak),
+                        replay(),
+                    );
+                }
+                ctx.tally("W4.argon2.valid-cheap-ran", 1);
+            } else {
+                ctx.tally("W4.argon2.valid-cheap-refused", 1);
+            }
+        }
+        A2Class::ValidExpensive => {}
+    }
+}
+
+// ------------------------------------------------------------------------------------------
 
 pub fn run(ctx: &mut Ctx) {
-    ctx.inconclusive("monitor not built yet");
+    // A RUST_BACKTRACE=1 inherited from the caller's environment makes every library error value
+    // capture and symbolise a stack trace (measured: ~33 MB, 86 k allocations, 60 ms, once per
+    // process). That is a debugging facility of the environment, not work caused by the input;
+    // it is switched off for library-captured backtraces before the first error value exists
+    // (std caches the setting on first use). The self-check verifies that this took effect.
+    std::env::set_var("RUST_LIB_BACKTRACE", "0");
+    {
+        let mut r = ctx.rng("filler", 0);
+        FILL_SALT.store(r.gen::<u64>() | 1, std::sync::atomic::Ordering::Relaxed);
+    }
+    if !selfcheck(ctx) {
+        return;
+    }
+    ctx.extra.insert(
+        "bounds".into(),
+        json!({
+            "W1.peak": "256 KiB + 16*|input| + documented buffers (AEAD 2*(chunk+32) for chunk octet <= 16, bzip2 8 MiB); measured maximum of peak - 16*|input| - documented on the unchanged tree: 42 KiB (see set W1.max_peak_minus_16x_input_KiB)",
+            "W1.single": "no single allocation >= declared/2 when declared >= 1 MiB and |input| < 64 KiB",
+            "W2.time": format!("exponent < {SLOPE_LIMIT} over n,2n,4n,8n; decisive only if the largest run took >= {DECISIVE_S} s; confirmed twice"),
+            "W2.peak": "256 KiB + 16*|input| + 1 KiB per repeated element (measured <= 150 B) or 64 KiB per container layer (measured 8.4 KiB stored, 16.7 KiB zlib)",
+            "W3.stream": "peak(64 MiB) <= peak(16 MiB) + 1 MiB and <= 32 MiB + 3*(chunk+64) (+8 MiB bzip2); measured: builder 1.5-3.7 MiB (10 MiB with 4 MiB chunks), reader 24-87 KiB (25 MiB with 4 MiB chunks)",
+            "W3.checkfirst": "|ciphertext| > L + 4 KiB => Err; peak <= 2*L + 256 KiB (+256 KiB with compression); measured peak = L + 22 KiB",
+            "W4.argon2": "over-ceiling / malformed => Err with < 1 MiB peak and < 50 ms CPU; valid cheap sets: peak <= m KiB + 256 KiB",
+            "W4.iterated": "all 256 counts equal the streaming RFC reference; peak < 64 KiB",
+        }),
+    );
+    if let Ok(h) = std::env::var("C19_PROBE") {
+        let data = hex::decode(h.trim()).expect("hex");
+        let mut scratch = vec![0u8; 64 * 1024];
+        for e in Entry::BINARY {
+            let o = observe(e, &data, &mut scratch);
+            eprintln!("{:32} ok={} peak={} total={} count={} max_single={} cpu={:.6} panicked={:?}", e.name(), o.ok, o.st.peak, o.st.total, o.st.count, o.st.max_single, o.cpu, o.panicked);
+        }
+        return;
+    }
+    let only = std::env::var("C19_ONLY").unwrap_or_default();
+    let want = |f: &str| only.is_empty() || only.split(',').any(|x| x == f);
+    if want("W1") {
+        w1(ctx);
+    }
+    if want("W1b") {
+        w1b(ctx);
+    }
+    if want("W2") {
+        w2(ctx);
+    }
+    if want("W3") {
+        w3(ctx);
+    }
+    if want("W4") {
+        w4(ctx);
+    }
+}
+
+/// The allocator probe must see allocations made inside the closure and must not see buffers that
+/// were built before it. Otherwise every number below is meaningless: inconclusive, not held.
+fn selfcheck(ctx: &mut Ctx) -> bool {
+    let pre = vec![7u8; 3 * MIB as usize];
+    let (s, st) = measure_alloc(|| pre.iter().map(|b| *b as u64).sum::<u64>());
+    let ok1 = s == 7 * 3 * MIB && st.peak < 4096;
+    let (_, st2) = measure_alloc(|| {
+        let v = vec![1u8; 5 * MIB as usize];
+        std::hint::black_box(&v);
+        let w = Vec::<u8>::with_capacity(2 * MIB as usize);
+        std::hint::black_box(&w);
+    });
+    // (a few hundred bytes of slack: the watchdog thread may still be starting up and the probe is
+    // process-wide)
+    let ok2 = st2.peak + 4096 >= 7 * MIB && st2.peak < 7 * MIB + 4096 && st2.max_single == 5 * MIB && st2.leaked < 4096;
+    // grow-by-realloc is seen as the new size only
+    let (_, st3) = measure_alloc(|| {
+        let mut v: Vec<u8> = Vec::with_capacity(1024);
+        for i in 0..(MIB as usize) {
+            v.push(i as u8);
+        }
+        std::hint::black_box(&v);
+    });
+    let ok3 = st3.peak >= MIB && st3.peak <= 3 * MIB;
+    if !(ok1 && ok2 && ok3) {
+        ctx.inconclusive(format!(
+            "allocator probe self-check failed: prebuilt-not-counted={ok1} (peak {}), inside-counted={ok2} (peak {}, max {}), realloc={ok3} (peak {})",
+            st.peak, st2.peak, st2.max_single, st3.peak
+        ));
+        return false;
+    }
+    // an input that makes a library error value: must not cost a symbolised backtrace
+    let mut bad = pkt(6, &v4_pubkey_ed25519_legacy());
+    bad.extend(hdr_new5(6, u32::MAX));
+    let mut scratch = vec![0u8; 4096];
+    let o = observe(Entry::PublicKey, &bad, &mut scratch);
+    if o.st.peak > MIB {
+        ctx.inconclusive(format!(
+            "library error values capture backtraces in this environment (peak {} bytes for a 59 byte input); RUST_LIB_BACKTRACE=0 had no effect",
+            o.st.peak
+        ));
+        return false;
+    }
+    ctx.tally("selfcheck.alloc-probe-ok", 1);
+    true
 }
